@@ -97,6 +97,11 @@ def qt(n):
     return n.get("type", {}).get("qualType", "")
 
 
+def dqt(n):
+    """the type of a node with typedef sugar removed (as clang reports it)"""
+    return n.get("type", {}).get("desugaredQualType") or n.get("type", {}).get("qualType", "")
+
+
 def strip_type(t):
     t = t.replace("const ", "").replace("volatile ", "").replace("&", "").strip()
     return t
@@ -104,7 +109,8 @@ def strip_type(t):
 
 REAL_T = {"double", "dsplib::real_t", "real_t", "float", "long double"}
 INT_T = {"int", "unsigned int", "uint32_t", "int32_t", "size_t", "long", "unsigned long", "std::size_t",
-         "std::vector::size_type", "size_type", "uint64_t", "int64_t", "unsigned short", "short"}
+         "std::vector::size_type", "size_type", "uint64_t", "int64_t", "unsigned short", "short", "long long",
+         "unsigned long long", "uint16_t", "int16_t"}
 CX_T = {"dsplib::cmplx_t", "cmplx_t"}
 
 
@@ -1214,6 +1220,31 @@ INT_WIDTH = {"int": (32, True), "unsigned int": (32, False), "uint32_t": (32, Fa
              "long long": (64, True), "unsigned long long": (64, False)}
 
 
+# scoped enums used by members: name -> {constant: value}; filled by the unit from the EnumDecl before translating
+ENUM_TYPES = {}
+# std::vector members read through operator[] (never resized by the translated code)
+VECTOR_T = {"std::vector<arr_real>": "Array (Array α)", "std::vector<int>": "Array Int"}
+
+
+def load_enum(tu, name):
+    docs = clang_ast(tu, name)
+    es = [d for d in docs if d.get("kind") == "EnumDecl" and d.get("name") == name]
+    if len(es) != 1:
+        raise Unsupported("enum %s not found" % name)
+    vals, nxt = {}, 0
+    for c in es[0].get("inner", []):
+        if c.get("kind") != "EnumConstantDecl":
+            continue
+        lits = find_all(c, lambda x: x.get("kind") == "ConstantExpr" and "value" in x)
+        if c.get("inner") and not lits:
+            raise Unsupported("enum %s::%s: initialiser not constant" % (name, c["name"]))
+        v = int(lits[0]["value"]) if lits else nxt
+        vals[c["name"]] = v
+        nxt = v + 1
+    ENUM_TYPES[name] = vals
+    return vals
+
+
 def lean_type_of(cxx, subobj_types=None):
     """Lean type of a data member / local of C++ type `cxx` (canonical); None = not representable"""
     t = canon_type(strip_type(cxx))
@@ -1224,13 +1255,35 @@ def lean_type_of(cxx, subobj_types=None):
         return "Int"
     if k == "cx":
         return "Cx α"
+    if k == "bool":
+        return "Bool"
     if t in ARRAY_REAL_T:
         return "Array α"
     if t in ARRAY_CX_T:
         return "Array (Cx α)"
     if subobj_types and t in subobj_types:
         return subobj_types[t]
+    if t in ENUM_TYPES:
+        return "Int"
+    if t in VECTOR_T:
+        return VECTOR_T[t]
     return None
+
+
+def ast_digest(n):
+    """structural digest of an AST subtree (kinds, operators, names, literal values, types; no ids / source positions):
+    used to PIN statements that are not translated — any change of them makes GEN fail"""
+    def ser(x):
+        if not isinstance(x, dict):
+            return "?"
+        keys = ("kind", "name", "opcode", "value", "castKind", "member", "isPostfix")
+        head = "|".join("%s=%s" % (k, x[k]) for k in keys if k in x)
+        if "type" in x:
+            head += "|T=" + canon_type(x["type"].get("qualType", ""))
+        if "referencedDecl" in x:
+            head += "|ref=%s:%s" % (x["referencedDecl"].get("kind"), x["referencedDecl"].get("name"))
+        return "(" + head + "".join(ser(c) for c in x.get("inner", []) or []) + ")"
+    return hashlib.sha256(ser(n).encode()).hexdigest()[:16]
 
 
 class StepTr(Tr):
@@ -1248,9 +1301,23 @@ class StepTr(Tr):
     """
 
     def __init__(self, obj=None, members=None, state=None, single=False, methods=None, subobjs=None, loop=None,
-                 user_calls=None, effect=True):
+                 user_calls=None, effect=True, scratch=None):
         super().__init__(this_name="self", user_calls=user_calls or {})
         self.obj = obj
+        # loop-carried locals (arrays declared in front of the sample loop): C++ name -> clang id of the VarDecl; they are
+        # entries of `members` (pseudo-members: they live as long as the loop, exactly like a member during one call)
+        self.scratch = dict(scratch or {})
+        self.prims = set()             # array primitives of unit StepsArray used
+        self.ptr_arrays = {}           # pointer parameters standing for an array: C++ name -> (lean name, lean type)
+        self.uninit = set()            # locals declared without initialiser and not yet assigned
+        self.decl_order = []           # lean names in the order they were bound (parameters, then locals)
+        self.local_arrays = {}         # array locals of the translated function: C++ name -> (lean name, lean type)
+        self.local_const = {}          # … declared const
+        self.ptr_locals = {}           # pointer locals `T* p = A.data() + off;`: C++ name -> (array target, lean name of the Int offset)
+        self.nonpreserving = set()     # array names assigned as a whole (possibly another length) in the scope being translated
+        self.fallible = False          # the translated function returns `Except String …` (a slice conversion may throw)
+        self.n_slices = 0
+        self.procs = {}                # array-mutating helper functions: C++ name -> dict(lean=…, kinds=[("ptr"|"val", lean type)…])
         self.members = members or {}
         self.state = set(state or ())
         self.single = single
@@ -1268,6 +1335,24 @@ class StepTr(Tr):
         self.uses_eps = False
         self.cells_written = []
         self.in_loop = loop is not None
+        self.types = {"eps": "α"}      # lean types of the names in scope (needed for the parameters of inner-loop bodies)
+        self.aux_defs = []             # bodies of inner loops, emitted as definitions of their own in front of the function
+        self.name_hint = "step"
+        self.loop_vars = set()         # counters of (inner) loops: never assigned
+        self.arrays = {}               # read-only arrays in scope: C++ name -> (lean name, lean type)
+        self.inner_depth = 0
+        if loop and loop.get("indexed"):
+            self.bound.add(self.var(loop["var"]))
+            self.types[self.var(loop["var"])] = "Int"
+            self.loop_vars.add(self.var(loop["var"]))
+            for a, (ln, lt) in loop.get("arrays", {}).items():
+                self.arrays[a] = (ln, lt)
+                self.bound.add(ln)
+                self.types[ln] = lt
+            for c_, init in loop.get("cell_init", {}).items():
+                self.bound.add(c_)
+        if loop:
+            self.types.update(loop.get("cell_types", {}))
 
     # ---------------------------------------------------------------- names
     def var(self, name):
@@ -1292,7 +1377,14 @@ class StepTr(Tr):
         """C++ member name if n is `obj.member` / `this->member`, else None"""
         n = unwrap(n)
         if n.get("kind") == "MemberExpr" and self.is_obj(n["inner"][0]):
+            if n["name"] in self.scratch:
+                raise Unsupported("member %s is named like a loop-carried local" % n["name"])
             return n["name"]
+        if n.get("kind") == "DeclRefExpr" and n.get("referencedDecl", {}).get("kind") == "VarDecl" and \
+                n["referencedDecl"].get("name") in self.scratch:
+            if n["referencedDecl"].get("id") != self.scratch[n["referencedDecl"]["name"]]:
+                raise Unsupported("local `%s` shadows a loop-carried local" % n["referencedDecl"]["name"])
+            return n["referencedDecl"]["name"]
         return None
 
     def mref(self, name, write=False):
@@ -1311,6 +1403,8 @@ class StepTr(Tr):
     def e_MemberExpr(self, n):
         m = self.member_of_obj(n)
         if m is not None:
+            if self.members.get(m, (0, ""))[1] == "Bool":
+                return "(%s = true)" % self.mref(m)      # a `bool` member read as a condition
             return self.mref(m)
         base = unwrap(n["inner"][0])
         if base.get("kind") == "DeclRefExpr" and kind_of_type(qt(base)) == "cx" and n["name"] in ("re", "im"):
@@ -1320,16 +1414,50 @@ class StepTr(Tr):
     def e_DeclRefExpr(self, n):
         ref = n.get("referencedDecl", {})
         name = ref.get("name")
-        if self.loop and name == self.loop["var"]:
+        if ref.get("kind") == "VarDecl" and name in self.scratch:
+            return self.mref(self.member_of_obj(n))
+        if ref.get("kind") == "VarDecl" and name in self.local_arrays:
+            return self.local_arrays[name][0]
+        if ref.get("kind") in ("ParmVarDecl", "VarDecl") and name in self.arrays and self.arrays[name][0] in self.bound:
+            return self.arrays[name][0]          # a read-only array passed on as a value (`dot(x1, x2)`)
+        if ref.get("kind") == "EnumConstantDecl":
+            en = canon_type(strip_type(qt(n)))
+            if en in ENUM_TYPES and name in ENUM_TYPES[en]:
+                return "%s_%s" % (en, name)
+            raise Unsupported("enum constant %s of %s" % (name, en))
+        if self.loop and name == self.loop["var"] and not self.loop.get("indexed"):
             raise Unsupported("loop index `%s` used other than as x[%s] / out[%s]" % (name, name, name))
         if self.obj is not None and name == self.obj:
             raise Unsupported("object parameter `%s` used as a value" % name)
         if ref.get("kind") in ("ParmVarDecl", "VarDecl"):
             v = self.var(name)
+            if v in self.uninit:
+                raise Unsupported("read of the local `%s` before it is assigned" % name)
+            if name in self.ptr_arrays:
+                raise Unsupported("pointer parameter `%s` used other than as `%s[i]` / `%s + i`" % (name, name, name))
             if v not in self.bound:
+                if ref.get("kind") == "VarDecl" and name == "pi" and canon_type(qt(n)) == "const real_t" and dsplib_pi_is_pi():
+                    return "Fn.pi"
                 raise Unsupported("reference to `%s`, which is not a local of the translated body" % name)
             return v
         raise Unsupported("DeclRefExpr to %s %s" % (ref.get("kind"), name))
+
+    def cast(self, n):
+        if n.get("castKind") == "IntegralCast":
+            src, dst = canon_type(strip_type(qt(n["inner"][0]))), canon_type(strip_type(qt(n)))
+            if src not in INT_WIDTH or dst not in INT_WIDTH:
+                raise Unsupported("integer conversion %s -> %s" % (src, dst))
+            (ws, ss), (wd, sd) = INT_WIDTH[src], INT_WIDTH[dst]
+            lit = unwrap(n["inner"][0]).get("kind") == "IntegerLiteral"
+            if not lit and (wd < ws or (ss and not sd) or (wd == ws and ss != sd)):
+                # the Lean value is the mathematical integer: a conversion that can change it is never translated
+                raise Unsupported("integer conversion %s -> %s may change the value (narrowing / sign)" % (src, dst))
+            return self.e(n["inner"][0])
+        if n.get("castKind") == "FloatingCast":
+            src, dst = canon_type(strip_type(qt(n["inner"][0]))), canon_type(strip_type(qt(n)))
+            if "float" in (src, dst) and src != dst:
+                raise Unsupported("floating conversion %s -> %s" % (src, dst))
+        return super().cast(n)
 
     def e_BinaryOperator(self, n):
         op = n["opcode"]
@@ -1347,6 +1475,10 @@ class StepTr(Tr):
                 a, b = self.e(l), self.e(r)
                 t = "(%s ≤ %s ∧ %s ≤ %s)" % (a, b, b, a)
                 return t if op == "==" else "(¬ %s)" % t
+            tl, tr_ = canon_type(strip_type(qt(l))), canon_type(strip_type(qt(r)))
+            if tl == tr_ and tl in ENUM_TYPES:
+                a, b = self.e(l), self.e(r)
+                return "(%s = %s)" % (a, b) if op == "==" else "(%s ≠ %s)" % (a, b)
             if not (kl == "int" and kr == "int"):
                 raise Unsupported("%s on operands of type %s / %s" % (op, qt(l), qt(r)))
         if op == ",":
@@ -1361,9 +1493,33 @@ class StepTr(Tr):
     def e_UnaryOperator(self, n):
         if n["opcode"] in ("++", "--"):
             raise Unsupported("increment used as an expression")
-        if n["opcode"] in ("*", "&"):
+        if n["opcode"] == "*":
+            # `*p` for a pointer local / pointer parameter: the cell it points to
+            t, off = self.ptr_into(n["inner"][0])
+            self.prims.add("ptrGet")
+            return "(ptrGet %s %s %s)" % (self.arr_default(self.tgt_type(t)), self.tgt_cur(t), off)
+        if n["opcode"] == "&":
             raise Unsupported("pointer operation %s" % n["opcode"])
         return super().e_UnaryOperator(n)
+
+    def e_CXXConstructExpr(self, n):
+        args = [a for a in n.get("inner", []) if a.get("kind") != "CXXDefaultArgExpr"]
+        ta = canon_type(strip_type(qt(n)))
+        if ta in ARRAY_REAL_T | ARRAY_CX_T and len(args) == 1:
+            el = "double" if ta in ARRAY_REAL_T else "cmplx_t"
+            ct = canon_type(n.get("ctorType", {}).get("qualType", ""))
+            if ct in ("void (base_array<%s> &&) noexcept" % el, "void (const base_array<%s> &)" % el):
+                # base_array(const base_array&) : _vec(v._vec) / base_array(base_array&&) : _vec(std::move(v._vec))  (PINNED in StepsArray)
+                self.prims.add("arrCopy")
+                return self.e(args[0])
+            raise Unsupported("construction of an array through %s" % ct)
+        if kind_of_type(qt(n)) == "cx" and len(args) == 1 and kind_of_type(qt(args[0])) == "int":
+            # cmplx_t(const T& v) with T = int: re{static_cast<real_t>(v)}, im{0}  (PINNED in unit StepsArray)
+            ct = canon_type(n.get("ctorType", {}).get("qualType", ""))
+            if ct != "void (const int &)":
+                raise Unsupported("construction of cmplx_t from an int through %s" % ct)
+            return "(Cx.mk (Fn.ofInt %s) (Fn.ofInt (0 : Int)))" % self.e(args[0])
+        return super().e_CXXConstructExpr(n)
 
     def e_ConditionalOperator(self, n):
         self.cond_depth += 1
@@ -1388,6 +1544,11 @@ class StepTr(Tr):
             if lt not in ("Array α", "Array (Cx α)"):
                 raise Unsupported("subscript on member %s of type %s" % (m, self.members.get(m, (0, 0, "?"))[2]))
             return ("member", m, n["inner"][2])
+        if base.get("kind") == "DeclRefExpr" and base["referencedDecl"].get("name") in self.local_arrays and \
+                base["referencedDecl"].get("kind") == "VarDecl":
+            return ("local", base["referencedDecl"]["name"], n["inner"][2])
+        if base.get("kind") == "DeclRefExpr" and base["referencedDecl"].get("name") in self.arrays:
+            return ("array", base["referencedDecl"]["name"], n["inner"][2])
         if not is_loop_idx:
             raise Unsupported("subscript of a non-member array with an index other than the loop variable")
         if base.get("kind") == "DeclRefExpr" and base["referencedDecl"].get("kind") == "ParmVarDecl":
@@ -1405,11 +1566,49 @@ class StepTr(Tr):
         return ("out", self.loop["outputs"][name])
 
     def arr_default(self, lt):
-        return "(Fn.ofInt (0 : Int))" if lt == "Array α" else "(Cx.mk (Fn.ofInt (0 : Int)) (Fn.ofInt (0 : Int)))"
+        return "zeroR" if lt == "Array α" else "zeroC"
+
+    def vec_elem(self, n):
+        """`v[i]` on a `std::vector` member (`std::vector::operator[](size_type)`, no bounds check): lean text or None"""
+        n = unwrap(n)
+        if n.get("kind") != "CXXOperatorCallExpr" or self.callee_name(n) != "operator[]":
+            return None
+        bt = canon_type(strip_type(qt(unwrap(n["inner"][1]))))
+        if bt not in VECTOR_T:
+            return None
+        m = self.member_of_obj(n["inner"][1])
+        if m is None or self.members.get(m, (0, ""))[1] != VECTOR_T[bt]:
+            raise Unsupported("subscript on a std::vector that is not a member of the unit's table")
+        idx = n["inner"][2]
+        while idx.get("kind") in ("ImplicitCastExpr", "ParenExpr") and (idx.get("kind") == "ParenExpr" or idx.get("castKind") in ("IntegralCast", "LValueToRValue", "NoOp")):
+            if idx.get("kind") == "ImplicitCastExpr" and idx.get("castKind") == "IntegralCast":
+                if canon_type(strip_type(qt(idx["inner"][0]))) != "int":
+                    raise Unsupported("vector index of type %s" % qt(idx["inner"][0]))
+                idx = idx["inner"][0]
+                break
+            if kind_of_type(qt(idx)) == "int" and canon_type(strip_type(qt(idx))) == "int":
+                break
+            idx = idx["inner"][0]
+        if canon_type(strip_type(qt(idx))) != "int":
+            raise Unsupported("vector index of type %s" % qt(idx))
+        # an `int` index converted to size_type: a negative one is undefined behaviour (here: the default value)
+        self.prims.add("ptrGet")
+        dflt = "#[]" if VECTOR_T[bt] == "Array (Array α)" else "(0 : Int)"
+        return "(ptrGet %s %s %s)" % (dflt, self.mref(m), self.e(idx))
 
     def e_CXXOperatorCallExpr(self, n):
         name = self.callee_name(n)
         if name == "operator[]":
+            ve = self.vec_elem(n)
+            if ve is not None:
+                return ve
+            inner_ve = self.vec_elem(n["inner"][1])
+            if inner_ve is not None:
+                # `v[k][j]`: base_array::operator[](int) on an element of a vector of arrays
+                lt = VECTOR_T[canon_type(strip_type(qt(unwrap(unwrap(n["inner"][1])["inner"][1]))))]
+                if lt != "Array (Array α)" or not re.search(r"\((int)\)", qt(unwrap(n["inner"][0]))):
+                    raise Unsupported("subscript of a vector element of type %s" % lt)
+                return "(arrGet zeroR %s %s)" % (inner_ve, self.e(n["inner"][2]))
             c = self.cell(n)
             if c[0] == "sample":
                 return self.loop["sample"]
@@ -1417,6 +1616,12 @@ class StepTr(Tr):
                 if c[1] not in self.bound:
                     raise Unsupported("output cell %s read before it is written" % c[1])
                 return c[1]
+            if c[0] == "array":
+                ln, lt = self.arrays[c[1]]
+                return "(arrGet %s %s %s)" % (self.arr_default(lt), ln, self.e(c[2]))
+            if c[0] == "local":
+                ln, lt = self.local_arrays[c[1]]
+                return "(arrGet %s %s %s)" % (self.arr_default(lt), ln, self.e(c[2]))
             lt = self.members[c[1]][1]
             return "(arrGet %s %s %s)" % (self.arr_default(lt), self.mref(c[1]), self.e(c[2]))
         if name == "operator()":
@@ -1426,6 +1631,28 @@ class StepTr(Tr):
             raise Unsupported("operator() on %s" % unwrap(n["inner"][1]).get("kind"))
         op = name.replace("operator", "")
         args = n["inner"][1:]
+        if op == "|" and len(args) == 2 and canon_type(strip_type(qt(args[0]))) in ARRAY_REAL_T | ARRAY_CX_T:
+            # `a | b`: base_array<T>::operator|(const base_array<T2>&) = copy, then `_vec.insert(_vec.end(), rhs.begin(), rhs.end())`
+            # (PINNED in unit StepsArray)
+            ta, tb = canon_type(strip_type(qt(args[0]))), canon_type(strip_type(qt(args[1])))
+            el = "double" if ta in ARRAY_REAL_T else "cmplx_t"
+            sig = canon_type(qt(unwrap(n["inner"][0])))
+            if not ((ta in ARRAY_REAL_T and tb in ARRAY_REAL_T) or (ta in ARRAY_CX_T and tb in ARRAY_CX_T)) or \
+                    sig != "base_array<%s> (const base_array<%s> &) const" % (el, el):
+                raise Unsupported("operator| on %s, %s (callee %s)" % (qt(args[0]), qt(args[1]), sig))
+            self.prims.add("arrConcat")
+            return "(arrConcat %s %s)" % (self.e(args[0]), self.e(args[1]))
+        if op == "/" and len(args) == 2 and canon_type(strip_type(qt(args[0]))) in ARRAY_REAL_T | ARRAY_CX_T:
+            # `array / scalar`: base_array<T>::operator/(const T2&) (PINNED in unit StepsArray: copy, then `_vec[i] /= rhs`)
+            ta, kb = canon_type(strip_type(qt(args[0]))), kind_of_type(qt(args[1]))
+            sig = canon_type(qt(unwrap(n["inner"][0])))
+            want = {("R", "real"): ("base_array<double> (const double &) const", "arrDivRR"),
+                    ("C", "cx"): ("base_array<cmplx_t> (const cmplx_t &) const", "arrDivCC")}.get(
+                        ("R" if ta in ARRAY_REAL_T else "C", kb))
+            if want is None or sig != want[0]:
+                raise Unsupported("operator/ on %s, %s (callee %s)" % (qt(args[0]), qt(args[1]), sig))
+            self.prims.add(want[1])
+            return "(%s %s %s)" % (want[1], self.e(args[0]), self.e(args[1]))
         if op in ("+", "-", "*", "/") and len(args) == 2:
             ka, kb = kind_of_type(qt(args[0])), kind_of_type(qt(args[1]))
             a, b = self.e(args[0]), self.e(args[1])
@@ -1505,7 +1732,197 @@ class StepTr(Tr):
             return "%s.2" % r
         if name in ("abs2", "conj") and kind_of_type(qt(unwrap(base))) == "cx":
             return "(Cx.%s %s)" % (name, self.e(base))
+        if name == "size" and not arg_nodes and canon_type(strip_type(qt(unwrap(base)))) in ARRAY_REAL_T | ARRAY_CX_T:
+            # base_array<T>::size() = int(_vec.size()) (PINNED in unit StepsArray)
+            self.prims.add("arrSize")
+            return "(arrSize %s)" % self.array_value(base)
         raise Unsupported("member call %s" % name)
+
+    def array_value(self, n):
+        """Lean text of an array-typed lvalue: a member array, a loop-carried local, or a read-only array in scope"""
+        m = self.member_of_obj(n)
+        if m is not None:
+            if self.members.get(m, (0, ""))[1] not in ("Array α", "Array (Cx α)"):
+                raise Unsupported("%s is not an array member" % m)
+            return self.mref(m)
+        b = unwrap(n)
+        if b.get("kind") == "DeclRefExpr" and b["referencedDecl"].get("name") in self.local_arrays and \
+                b["referencedDecl"].get("kind") == "VarDecl":
+            return self.local_arrays[b["referencedDecl"]["name"]][0]
+        if b.get("kind") == "DeclRefExpr" and b["referencedDecl"].get("name") in self.arrays and \
+                self.arrays[b["referencedDecl"]["name"]][0] in self.bound:
+            return self.arrays[b["referencedDecl"]["name"]][0]
+        raise Unsupported("array expression %s" % b.get("kind"))
+
+    def elem_kind(self, m):
+        return "real" if self.members[m][1] == "Array α" else "cx"
+
+    # array lvalues: ("member", C++ member / loop-carried local)  |  ("ptr", C++ pointer parameter that holds the first element)
+    def tgt_tab(self, t):
+        return {"ptr": self.ptr_arrays, "local": self.local_arrays, "ro": self.arrays}[t[0]]
+
+    def tgt_type(self, t):
+        return self.members[t[1]][1] if t[0] == "member" else self.tgt_tab(t)[t[1]][1]
+
+    def tgt_cur(self, t):
+        return self.mref(t[1]) if t[0] == "member" else self.tgt_tab(t)[t[1]][0]
+
+    def tgt_set(self, t, val):
+        if t[0] == "member":
+            return self.set_member(t[1], val)
+        if t[0] == "ro":
+            raise Unsupported("write to the read-only array %s" % t[1])
+        if t[0] == "ptr" and self.ptr_arrays[t[1]][2]:
+            raise Unsupported("write through the pointer-to-const parameter %s" % t[1])
+        v = self.tgt_tab(t)[t[1]][0]
+        if t[0] == "local" and self.local_const.get(t[1]):
+            raise Unsupported("write to the const array local %s" % t[1])
+        if not re.match(r"\((arrSet|ptrSet|arrMove|arrFill|arrCopy) ", val):
+            self.nonpreserving.add(v)
+        self.note_assigned(v)
+        return "let %s := %s\n" % (v, val)
+
+    def ptr_into(self, n):
+        """`A.data()` / `A.data() + off` on a member array (or loop-carried local) A, or `x` / `x + off` on a pointer
+        parameter x of the translated function -> (target, lean text of off)"""
+        while n.get("kind") in ("ImplicitCastExpr", "ParenExpr", "CStyleCastExpr", "CXXStaticCastExpr", "CXXReinterpretCastExpr") and \
+                (n.get("kind") == "ParenExpr" or n.get("castKind") in ("BitCast", "NoOp", "LValueToRValue")):
+            n = n["inner"][0]
+        if n.get("kind") == "BinaryOperator" and n.get("opcode") == "+" and qt(n).rstrip().endswith("*"):
+            l, r = n["inner"]
+            if kind_of_type(dqt(r)) != "int":
+                raise Unsupported("pointer arithmetic %s + %s" % (qt(l), qt(r)))
+            a, off0 = self.ptr_into(l)
+            off = self.e(r)
+            return a, off if off0 == "(0 : Int)" else "(%s + %s)" % (off0, off)
+        if n.get("kind") == "CXXMemberCallExpr" and len(n["inner"]) == 1:
+            me = unwrap(n["inner"][0])
+            if me.get("kind") == "MemberExpr" and me.get("name") == "data":
+                m = self.member_of_obj(me["inner"][0])
+                if m is not None and self.members.get(m, (0, ""))[1] in ("Array α", "Array (Cx α)"):
+                    # base_array<T>::data() = _vec.data() (PINNED in unit StepsArray)
+                    return ("member", m), "(0 : Int)"
+        if n.get("kind") == "CXXMemberCallExpr" and len(n["inner"]) == 1:
+            me = unwrap(n["inner"][0])
+            if me.get("kind") == "MemberExpr" and me.get("name") == "data":
+                b = unwrap(me["inner"][0])
+                nm = b.get("referencedDecl", {}).get("name") if b.get("kind") == "DeclRefExpr" else None
+                if nm in self.local_arrays and b["referencedDecl"].get("kind") == "VarDecl":
+                    return ("local", nm), "(0 : Int)"
+                if nm in self.arrays and self.arrays[nm][0] in self.bound:
+                    return ("ro", nm), "(0 : Int)"
+        if n.get("kind") == "DeclRefExpr" and n.get("referencedDecl", {}).get("kind") == "ParmVarDecl" and \
+                n["referencedDecl"].get("name") in self.ptr_arrays:
+            return ("ptr", n["referencedDecl"]["name"]), "(0 : Int)"
+        if n.get("kind") == "DeclRefExpr" and n.get("referencedDecl", {}).get("kind") == "VarDecl" and \
+                n["referencedDecl"].get("name") in self.ptr_locals:
+            t, ov = self.ptr_locals[n["referencedDecl"]["name"]]
+            if ov not in self.bound:
+                raise Unsupported("pointer local `%s` used outside its scope" % n["referencedDecl"]["name"])
+            return t, ov
+        raise Unsupported("pointer expression %s (only `A.data()`, a pointer parameter, and `… + int`)" % n.get("kind"))
+
+    def e_ArraySubscriptExpr(self, n):
+        """`x[i]` on a raw pointer parameter: no index resolution (a negative index is undefined, not Python-style)"""
+        t, off = self.ptr_into(n["inner"][0])
+        if kind_of_type(qt(n["inner"][1])) != "int":
+            raise Unsupported("subscript of type %s" % qt(n["inner"][1]))
+        i = self.e(n["inner"][1])
+        self.prims.add("ptrGet")
+        idx = i if off == "(0 : Int)" else "(%s + %s)" % (off, i)
+        return "(ptrGet %s %s %s)" % (self.arr_default(self.tgt_type(t)), self.tgt_cur(t), idx)
+
+    def elem_count(self, n, m):
+        """`E * sizeof(T)` (byte count of a mem* call) -> lean text of the element count E; T must be the element type of m"""
+        n = unwrap(n)
+        if not (n.get("kind") == "BinaryOperator" and n.get("opcode") == "*"):
+            raise Unsupported("byte count is not `count * sizeof(T)`")
+        l, r = n["inner"]
+        if unwrap(l).get("kind") == "UnaryExprOrTypeTraitExpr":
+            l, r = r, l
+        so = unwrap(r)
+        if not (so.get("kind") == "UnaryExprOrTypeTraitExpr" and so.get("name") == "sizeof" and "argType" in so):
+            raise Unsupported("byte count is not `count * sizeof(T)`")
+        st = canon_type(so["argType"].get("desugaredQualType") or so["argType"].get("qualType"))
+        want = {"Array α": ("double",), "Array (Cx α)": ("cmplx_t",)}[self.tgt_type(m)]
+        if st not in want:
+            raise Unsupported("sizeof(%s) in a byte count for an array of %s" % (st, want[0]))
+        # the count itself: an `int` expression, converted to size_t by the multiplication.  A negative count would wrap to a
+        # huge size_t (undefined behaviour of the mem* call); the Lean primitive documents that it then moves nothing.
+        c = l
+        while c.get("kind") == "ParenExpr":
+            c = c["inner"][0]
+        if c.get("kind") == "ImplicitCastExpr" and c.get("castKind") == "IntegralCast":
+            c = c["inner"][0]
+        if canon_type(strip_type(qt(c))) != "int":
+            raise Unsupported("element count of type %s" % qt(c))
+        return self.e(c)
+
+    def stmt_memmove(self, s):
+        """`std::memmove(A.data() + d, A.data() + s, cnt * sizeof(T));` within one member array"""
+        sig = canon_type(qt(unwrap(s["inner"][0])))
+        if not sig.startswith("void *(void *, const void *, size_t)"):
+            raise Unsupported("memmove with signature %s" % sig)
+        if len(s["inner"]) != 4:
+            raise Unsupported("memmove with %d arguments" % (len(s["inner"]) - 1))
+        (md, doff), (ms, soff) = self.ptr_into(s["inner"][1]), self.ptr_into(s["inner"][2])
+        if md != ms:
+            raise Unsupported("memmove between different arrays (%s, %s)" % (md, ms))
+        cnt = self.elem_count(s["inner"][3], md)
+        self.prims.add("arrMove")
+        cur = self.tgt_cur(md)
+        return self.tgt_set(md, "(arrMove %s %s %s %s)" % (cur, doff, soff, cnt))
+
+    def stmt_memcpy(self, s):
+        """`std::memcpy(D.data() + d, S.data() + s, cnt * sizeof(T));` between two DIFFERENT arrays"""
+        sig = canon_type(qt(unwrap(s["inner"][0])))
+        if not sig.replace("__restrict", "").replace(" ,", ",").startswith("void *(void *, const void *, size_t)"):
+            raise Unsupported("memcpy with signature %s" % sig)
+        if len(s["inner"]) != 4:
+            raise Unsupported("memcpy with %d arguments" % (len(s["inner"]) - 1))
+        (md, doff), (ms, soff) = self.ptr_into(s["inner"][1]), self.ptr_into(s["inner"][2])
+        if md == ms or self.tgt_cur(md) == self.tgt_cur(ms):
+            raise Unsupported("memcpy within one array (overlap is undefined behaviour)")
+        if self.tgt_type(md) != self.tgt_type(ms):
+            raise Unsupported("memcpy between arrays of different element types")
+        cnt = self.elem_count(s["inner"][3], md)
+        self.prims.add("arrCopy")
+        return self.tgt_set(md, "(arrCopy %s %s %s %s %s)" % (self.tgt_cur(md), doff, self.tgt_cur(ms), soff, cnt))
+
+    def stmt_fill(self, s):
+        """`std::fill(A.begin(), A.end(), v);` on a member array / loop-carried local"""
+        if len(s["inner"]) != 4:
+            raise Unsupported("fill with %d arguments" % (len(s["inner"]) - 1))
+        ends = []
+        for a, nm in ((s["inner"][1], "begin"), (s["inner"][2], "end")):
+            a = unwrap(a)
+            ok = a.get("kind") == "CXXMemberCallExpr" and len(a["inner"]) == 1 and unwrap(a["inner"][0]).get("kind") == "MemberExpr" and \
+                unwrap(a["inner"][0]).get("name") == nm
+            m = self.member_of_obj(unwrap(a["inner"][0])["inner"][0]) if ok else None
+            if m is None or self.members.get(m, (0, ""))[1] not in ("Array α", "Array (Cx α)"):
+                raise Unsupported("fill range is not `A.%s()` of a member array" % nm)
+            ends.append(m)
+        if ends[0] != ends[1]:
+            raise Unsupported("fill range over two arrays (%s, %s)" % tuple(ends))
+        m = ends[0]
+        v = s["inner"][3]
+        while v.get("kind") in ("MaterializeTemporaryExpr", "ParenExpr") or (v.get("kind") == "ImplicitCastExpr" and v.get("castKind") == "NoOp"):
+            v = v["inner"][0]
+        if self.elem_kind(m) == "real":
+            if v.get("kind") == "IntegerLiteral":
+                val = "(Fn.ofInt (%s : Int))" % v["value"]        # `*it = v` converts the int to real_t
+            elif kind_of_type(qt(v)) == "real":
+                val = self.e(v)
+            else:
+                raise Unsupported("fill value of type %s" % qt(v))
+        else:
+            if v.get("kind") != "IntegerLiteral":
+                raise Unsupported("fill of a complex array with a value other than an integer literal")
+            # `*it = v`: cmplx_t(const T& v) : re{static_cast<real_t>(v)}, im{0}  (PINNED in unit StepsArray)
+            val = "(Cx.mk (Fn.ofInt (%s : Int)) (Fn.ofInt (0 : Int)))" % v["value"]
+        self.prims.add("arrFill")
+        cur = self.mref(m)
+        return self.set_member(m, "(arrFill %s %s)" % (cur, val))
 
     # ---------------------------------------------------------------- statements
     def note_assigned(self, v):
@@ -1515,10 +1932,19 @@ class StepTr(Tr):
             if v not in fr["assigned"]:
                 fr["assigned"].append(v)
 
-    def declare(self, v):
+    def declare(self, v, lt=None):
         if self.frames:
             self.frames[-1]["decl"].add(v)
         self.bound.add(v)
+        if v not in self.decl_order:
+            self.decl_order.append(v)
+        if lt is not None:
+            self.types[v] = lt
+
+    def ends(self, s):
+        if s.get("kind") == "ContinueStmt":
+            return True
+        return super().ends(s)
 
     def flush(self):
         t = "".join(self.pre)
@@ -1532,31 +1958,71 @@ class StepTr(Tr):
             raise Unsupported("local `%s` of type %s" % (d.get("name"), qt(d)))
         return lt
 
-    def assign(self, lhs, r):
+    def assign(self, lhs, r, whole=False):
         lhs = unwrap(lhs)
         k = lhs.get("kind")
-        if k == "DeclRefExpr" and lhs["referencedDecl"].get("kind") == "VarDecl":
+        if k == "DeclRefExpr" and lhs["referencedDecl"].get("kind") == "VarDecl" and self.member_of_obj(lhs) is None:
             if self.loop and lhs["referencedDecl"]["name"] == self.loop["var"]:
                 raise Unsupported("assignment to the loop variable")
             v = self.var(lhs["referencedDecl"]["name"])
             if v not in self.bound:
                 raise Unsupported("assignment to `%s`, which is not a local of the translated body" % v)
+            if v in self.loop_vars:
+                raise Unsupported("assignment to the loop counter `%s`" % v)
+            if v in self.uninit:
+                if self.frames:
+                    raise Unsupported("first assignment of the uninitialised local `%s` inside a branch / loop" % v)
+                self.uninit.discard(v)
+            self.note_assigned(v)
+            return "let %s := %s\n" % (v, r)
+        if k == "UnaryOperator" and lhs.get("opcode") == "*":
+            t, off = self.ptr_into(lhs["inner"][0])
+            self.prims.add("ptrSet")
+            return self.tgt_set(t, "(ptrSet %s %s %s)" % (self.tgt_cur(t), off, r))
+        if k == "ArraySubscriptExpr":
+            t, off = self.ptr_into(lhs["inner"][0])
+            if kind_of_type(qt(lhs["inner"][1])) != "int":
+                raise Unsupported("subscript of type %s" % qt(lhs["inner"][1]))
+            i = self.e(lhs["inner"][1])
+            idx = i if off == "(0 : Int)" else "(%s + %s)" % (off, i)
+            self.prims.add("ptrSet")
+            return self.tgt_set(t, "(ptrSet %s %s %s)" % (self.tgt_cur(t), idx, r))
+        if whole and k == "DeclRefExpr" and lhs["referencedDecl"].get("name") in self.local_arrays:
+            v = self.local_arrays[lhs["referencedDecl"]["name"]][0]
             self.note_assigned(v)
             return "let %s := %s\n" % (v, r)
         m = self.member_of_obj(lhs)
         if m is not None:
+            if whole and self.members.get(m, (0, ""))[1] in ("Array α", "Array (Cx α)"):
+                return self.set_member(m, r)      # base_array<T>::operator= (copy / move: PINNED in unit StepsArray)
             if self.members.get(m, (0, "")) [1] not in ("α", "Int", "Cx α"):
                 raise Unsupported("assignment to member %s of type %s" % (m, self.members.get(m, (0, 0, "?"))[2]))
             return self.set_member(m, r)
+        if k == "MemberExpr" and lhs.get("name") in ("re", "im") and unwrap(lhs["inner"][0]).get("kind") == "CXXOperatorCallExpr" and \
+                kind_of_type(qt(unwrap(lhs["inner"][0]))) == "cx":
+            # `A[i].re = v;` — one field of a complex cell
+            cl = unwrap(lhs["inner"][0])
+            cur = self.e(cl)
+            return self.assign(cl, "{ %s with %s := %s }" % (cur, lhs["name"], r))
         if k == "CXXOperatorCallExpr":
             c = self.cell(lhs)
+            if c is not None and c[0] == "array":
+                raise Unsupported("write to the read-only array %s" % c[1])
+            if c is not None and c[0] == "local":
+                ln, lt = self.local_arrays[c[1]]
+                if self.local_const.get(c[1]):
+                    raise Unsupported("write to the const array local %s" % c[1])
+                self.note_assigned(ln)
+                return "let %s := (arrSet %s %s %s)\n" % (ln, ln, self.e(c[2]), r)
             if c is not None and c[0] == "out":
-                if self.frames:
-                    raise Unsupported("output cell %s written inside a branch" % c[1])
-                if c[1] in self.bound:
+                if self.frames and c[1] not in self.bound:
+                    raise Unsupported("output cell %s first written inside a branch / inner loop" % c[1])
+                if c[1] in self.bound and not (self.loop and self.loop.get("indexed")):
                     raise Unsupported("output cell %s written twice" % c[1])
+                self.note_assigned(c[1])
                 self.bound.add(c[1])
-                self.cells_written.append(c[1])
+                if c[1] not in self.cells_written:
+                    self.cells_written.append(c[1])
                 ct = self.loop.get("cell_types", {}).get(c[1])
                 return "let %s%s := %s\n" % (c[1], (" : %s" % ct) if ct else "", r)
             if c is not None and c[0] == "member":
@@ -1573,6 +2039,23 @@ class StepTr(Tr):
         s, rest = lst[0], lst[1:]
         k = s.get("kind")
         cont = lambda: self.stmts(rest, final)
+        if (k == "CXXThrowExpr" or (k == "ExprWithCleanups" and s.get("inner") and s["inner"][0].get("kind") == "CXXThrowExpr")) and \
+                self.fallible and not self.in_loop and self.inner_depth == 0:
+            return '(.error "%s")' % self.throw_msg(s)
+        if k == "UnaryOperator" and s.get("opcode") in ("++", "--") and unwrap(s["inner"][0]).get("kind") == "DeclRefExpr" and \
+                unwrap(s["inner"][0])["referencedDecl"].get("name") in self.ptr_locals:
+            t_, ov = self.ptr_into(s["inner"][0])
+            self.note_assigned(ov)
+            return "let %s := (%s %s (1 : Int))\n" % (ov, ov, "+" if s["opcode"] == "++" else "-") + cont()
+        if k == "CompoundAssignOperator" and s.get("opcode") in ("+=", "-=") and unwrap(s["inner"][0]).get("kind") == "DeclRefExpr" and \
+                unwrap(s["inner"][0])["referencedDecl"].get("name") in self.ptr_locals:
+            t_, ov = self.ptr_into(s["inner"][0])
+            if kind_of_type(qt(s["inner"][1])) != "int":
+                raise Unsupported("pointer %s %s" % (s["opcode"], qt(s["inner"][1])))
+            r = self.e(s["inner"][1])
+            pre = self.flush()
+            self.note_assigned(ov)
+            return pre + "let %s := (%s %s %s)\n" % (ov, ov, s["opcode"][0], r) + cont()
         if k == "CompoundStmt":
             # (scoping: a declaration inside a nested block shadows until the end of the enclosing list — names are
             #  unique in the translated bodies or the Lean shadowing coincides; nested plain blocks are rare)
@@ -1584,26 +2067,142 @@ class StepTr(Tr):
         if k == "DeclStmt":
             text = ""
             for d in s["inner"]:
+                if d.get("kind") == "VarDecl" and not [c for c in d.get("inner", []) if c.get("kind") != "FullComment"] and \
+                        d.get("storageClass") != "static" and lean_type_of(qt(d)) in ("Int", "α") and not self.frames and \
+                        d.get("name") not in self.scratch and d.get("name") not in self.arrays:
+                    # `int pos;` — no value until the first assignment (a read before that is refused)
+                    v = self.var(d["name"])
+                    if v in self.bound:
+                        raise Unsupported("local `%s` shadows a name in scope" % v)
+                    self.declare(v, lean_type_of(qt(d)))
+                    self.uninit.add(v)
+                    continue
                 if d.get("kind") != "VarDecl" or "inner" not in d:
                     raise Unsupported("declaration without initialiser")
                 if d.get("storageClass") == "static":
                     raise Unsupported("static local %s" % d.get("name"))
+                if d.get("name") in self.scratch or d.get("name") in self.arrays:
+                    raise Unsupported("local `%s` shadows an array of the enclosing scope" % d.get("name"))
                 init = [c for c in d["inner"] if c.get("kind") not in ("FullComment",)][0]
+                if ptr_param(qt(d)) is not None:
+                    # `const auto* px = x.data() + k;` — a pointer into an array: the array it points into is fixed, the position is
+                    # an `Int` offset (which `++px`, `px += n` move)
+                    tgt, off = self.ptr_into(init)
+                    if ptr_param(qt(d))[0] != self.tgt_type(tgt):
+                        raise Unsupported("pointer local `%s` : %s into an array of %s" % (d["name"], qt(d), self.tgt_type(tgt)))
+                    if not ptr_param(qt(d))[1] and tgt[0] in ("ro",):
+                        raise Unsupported("pointer-to-non-const into the read-only array %s" % tgt[1])
+                    ov = self.var(d["name"]) + "_o"
+                    if ov in self.bound or d["name"] in self.ptr_locals:
+                        raise Unsupported("pointer local `%s` shadows a name in scope" % d["name"])
+                    text += self.flush() + "let %s : Int := %s\n" % (ov, off)
+                    self.ptr_locals[d["name"]] = (tgt, ov)
+                    self.declare(ov, "Int")
+                    continue
+                init_u = init
+                while init_u.get("kind") in ("ImplicitCastExpr", "ExprWithCleanups", "MaterializeTemporaryExpr") and \
+                        (init_u.get("kind") != "ImplicitCastExpr" or init_u.get("castKind") in ("NoOp", "LValueToRValue")):
+                    init_u = init_u["inner"][0]
+                vt = None
+                if init_u.get("kind") == "CXXOperatorCallExpr" and self.callee_name(init_u) == "operator[]" and \
+                        canon_type(strip_type(qt(unwrap(init_u["inner"][1])))) in VECTOR_T:
+                    vt = {"Array (Array α)": "Array α", "Array Int": "Int"}[VECTOR_T[canon_type(strip_type(qt(unwrap(init_u["inner"][1]))))]]
+                if (vt == "Array α" or lean_type_of(dqt(d)) in ("Array α", "Array (Cx α)")) and "const" in qt(d) and \
+                        (self.frames or self.in_loop or vt is not None):
+                    # a const array (reference) local: an alias of a value the function does not change
+                    lt = vt or lean_type_of(dqt(d))
+                    v = self.var(d["name"])
+                    if v in self.bound or d["name"] in self.local_arrays:
+                        raise Unsupported("array local `%s` shadows a name in scope" % d["name"])
+                    ve = self.vec_elem(init)
+                    if ve is None:
+                        raise Unsupported("initialiser of the const array local `%s`" % d["name"])
+                    text += self.flush() + "let %s : %s := %s\n" % (v, lt, ve)
+                    self.local_arrays[d["name"]] = (v, lt)
+                    self.local_const[d["name"]] = True
+                    self.declare(v, lt)
+                    continue
+                if lean_type_of(qt(d)) in ("Array α", "Array (Cx α)"):
+                    # an array local: `arr_real r(n);` (n zero elements) or `auto x = <array expression>;`
+                    if self.frames or self.in_loop:
+                        raise Unsupported("array local `%s` declared inside a branch / loop" % d["name"])
+                    lt = lean_type_of(qt(d))
+                    v = self.var(d["name"])
+                    if v in self.bound or d["name"] in self.local_arrays:
+                        raise Unsupported("array local `%s` shadows a name in scope" % d["name"])
+                    i0 = unwrap(init)
+                    while (i0.get("kind") == "ImplicitCastExpr" and i0.get("castKind") == "NoOp") or \
+                            (i0.get("kind") == "CXXFunctionalCastExpr" and i0.get("castKind") == "ConstructorConversion"):
+                        i0 = unwrap(i0["inner"][0])
+                    self.local_const[d["name"]] = "const" in qt(d)
+                    if i0.get("kind") == "CXXMemberCallExpr" and self.member_of_obj(unwrap(i0["inner"][0])["inner"][0]) in self.subobjs and \
+                            self.subobjs[self.member_of_obj(unwrap(i0["inner"][0])["inner"][0])]["ops"].get(unwrap(i0["inner"][0])["name"], {}) and \
+                            isinstance(self.subobjs[self.member_of_obj(unwrap(i0["inner"][0])["inner"][0])]["ops"][unwrap(i0["inner"][0])["name"]], dict):
+                        # `const auto y = _sub.process(x);` — the sub-object's generated function may throw
+                        if len(s["inner"]) != 1:
+                            raise Unsupported("several declarators with a sub-object call")
+                        self.fallible_ok("call of a sub-object function that may throw")
+                        sm = self.member_of_obj(unwrap(i0["inner"][0])["inner"][0])
+                        op = self.subobjs[sm]["ops"][unwrap(i0["inner"][0])["name"]]
+                        if op["ret"] != lt:
+                            raise Unsupported("%s returns %s, declared %s" % (op["lean"], op["ret"], lt))
+                        argn = [a for a in i0["inner"][1:] if a.get("kind") != "CXXDefaultArgExpr"]
+                        args = [self.e(a) for a in argn]
+                        cur = self.mref(sm)
+                        self.n_slices += 1
+                        rv = "r_%s_%d" % (self.members[sm][0], self.n_slices)
+                        self.bound.add(rv)
+                        setm = self.set_member(sm, "%s.1" % rv)
+                        self.local_arrays[d["name"]] = (v, lt)
+                        self.declare(v, lt)
+                        return text + self.flush() + "match (%s %s %s) with\n| .error err => (.error err)\n| .ok %s =>\n%s" % (
+                            op["lean"], cur, " ".join(args), rv, indent(setm + "let %s : %s := %s.2\n" % (v, lt, rv) + cont()))
+                    if i0.get("kind") == "CXXConstructExpr" and canon_type(i0.get("ctorType", {}).get("qualType", "")) == "void (int)":
+                        self.prims.add("arrNew")
+                        val = "(arrNew %s %s)" % (self.arr_default(lt), self.e(i0["inner"][0]))
+                    elif lean_type_of(qt(i0)) == lt and i0.get("kind") in ("CXXOperatorCallExpr", "CallExpr", "CXXConstructExpr", "CXXMemberCallExpr"):
+                        val = self.e(i0)
+                    else:
+                        raise Unsupported("initialiser of the array local `%s`: %s" % (d["name"], i0.get("kind")))
+                    text += self.flush() + "let %s : %s := %s\n" % (v, lt, val)
+                    self.local_arrays[d["name"]] = (v, lt)
+                    self.declare(v, lt)
+                    continue
                 lt = self.local_type(d)
                 val = self.e(init)
                 v = self.var(d["name"])
                 text += self.flush() + "let %s : %s := %s\n" % (v, lt, val)
-                self.declare(v)
+                self.declare(v, lt)
             return text + cont()
         if k == "ReturnStmt":
             if self.in_loop:
                 raise Unsupported("return inside the sample loop")
             if not s.get("inner"):
-                return self.svar() if self.effect else "()"
+                r = self.svar() if self.effect else "()"
+                return ("(.ok %s)" % r) if self.fallible else r
+            sl = self.slice_rhs(s["inner"][0])
+            if sl is not None:
+                # `return A.slice(i1, i2);` — the conversion of the slice to the returned array may throw
+                self.fallible_ok("returned slice")
+                src = self.array_value(sl[0])
+                a, b = self.e(sl[1]), self.e(sl[2])
+                pre = self.flush()
+                self.n_slices += 1
+                v = "sl_%d" % self.n_slices
+                self.prims.add("arrSlice")
+                r = ("(%s, %s)" % (self.svar(), v)) if self.effect else v
+                return pre + "match (arrSlice %s %s %s) with\n| .error err => (.error err)\n| .ok %s =>\n  (.ok %s)" % (src, a, b, v, r)
             v = self.e(s["inner"][0])
             pre = self.flush()
-            return pre + (("(%s, %s)" % (self.svar(), v)) if self.effect else v)
-        if k in ("BreakStmt", "ContinueStmt", "GotoStmt", "CXXThrowExpr", "ForStmt", "WhileStmt", "DoStmt", "SwitchStmt",
+            r = ("(%s, %s)" % (self.svar(), v)) if self.effect else v
+            return pre + (("(.ok %s)" % r) if self.fallible else r)
+        if k == "ContinueStmt" and self.in_loop and self.inner_depth == 0:
+            return final            # next sample: the iteration ends with the values reached so far
+        if k == "ForStmt":
+            return self.inner_for(s) + cont()
+        if k == "WhileStmt":
+            return self.bounded_walk(s) + cont()
+        if k in ("BreakStmt", "ContinueStmt", "GotoStmt", "CXXThrowExpr", "DoStmt", "SwitchStmt",
                  "CXXForRangeStmt", "CXXTryStmt"):
             raise Unsupported("statement kind %s in a step body" % k)
         if k == "IfStmt":
@@ -1614,7 +2213,9 @@ class StepTr(Tr):
             pre = self.flush()
             then = parts[1]
             els = parts[2] if len(parts) > 2 else None
-            if has_exit(s):
+            if has_exit(s) or (self.fallible and self.has_fallible(s)):
+                # a branch that leaves the function, or contains a statement that may throw: the rest of the function is
+                # continued inside each branch
                 bound0 = set(self.bound)
                 t = self.stmts([then] + rest, final) if not self.ends(then) else self.stmts([then], final)
                 self.bound = set(bound0)
@@ -1681,6 +2282,19 @@ class StepTr(Tr):
             return self.flush_before(a) + cont()
         if k == "ExprWithCleanups":
             return self.stmts(list(s["inner"]) + rest, final)
+        if k in ("ParenExpr", "CXXStaticCastExpr", "CStyleCastExpr") and self.is_void_literal(s):
+            return cont()           # `assert(…)` under NDEBUG: `((void)0)`
+        if k == "CXXOperatorCallExpr" and self.callee_name(s) == "operator=" and self.slice_call(s["inner"][1]) is not None:
+            return self.stmt_slice_to_slice(s, cont)
+        if k == "CXXOperatorCallExpr" and self.callee_name(s) == "operator=" and self.slice_rhs(s["inner"][2]) is not None:
+            return self.stmt_slice_assign(s, cont)
+        if k == "CallExpr" and self.callee_name(s) in ("memmove", "fill", "memcpy"):
+            nm_ = self.callee_name(s)
+            a = self.stmt_memmove(s) if nm_ == "memmove" else (self.stmt_memcpy(s) if nm_ == "memcpy" else self.stmt_fill(s))
+            return self.flush_before(a) + cont()
+        if k == "CallExpr" and self.callee_name(s) in self.procs:
+            a = self.stmt_proc(s)
+            return self.flush_before(a) + cont()
         if k == "UnaryOperator" and s.get("opcode") in ("++", "--"):
             tgt = s["inner"][0]
             if kind_of_type(qt(tgt)) != "int":
@@ -1692,8 +2306,19 @@ class StepTr(Tr):
             nm = self.callee_name(s)
             if nm == "operator=":
                 lhs, rhs = s["inner"][1], s["inner"][2]
+                tl, tr_ = canon_type(strip_type(qt(lhs))), canon_type(strip_type(qt(rhs)))
+                whole = False
+                if tl in ARRAY_REAL_T | ARRAY_CX_T:
+                    # whole-array assignment `A = <array expression>`: the copy or the move assignment of base_array<T>
+                    sig = canon_type(qt(unwrap(s["inner"][0])))
+                    el = "double" if tl in ARRAY_REAL_T else "cmplx_t"
+                    if tr_ != tl or sig not in ("base_array<%s> &(base_array<%s> &&) noexcept" % (el, el),
+                                                "base_array<%s> &(const base_array<%s> &)" % (el, el)):
+                        raise Unsupported("array assignment %s = %s (callee %s)" % (tl, tr_, sig))
+                    whole = True
+                    self.prims.add("arrAssign")
                 r = self.e(rhs)
-                a = self.assign(lhs, r)
+                a = self.assign(lhs, r, whole=whole)
                 return self.flush_before(a) + cont()
             if nm in ("operator+=", "operator-=", "operator*=", "operator/="):
                 lhs, rhs = s["inner"][1], s["inner"][2]
@@ -1709,6 +2334,343 @@ class StepTr(Tr):
                 return self.flush_before(a) + cont()
         raise Unsupported("statement kind %s" % k)
 
+    def inner_for(self, s):
+        """`for (int i = 0; i < hi; i++) BODY` inside a step body: a left fold over `List.range hi` on the variables BODY assigns"""
+        init, condvar, cond, inc, body = s["inner"]
+        if condvar and condvar.get("kind"):
+            raise Unsupported("loop condition variable")
+        if not (init.get("kind") == "DeclStmt" and len(init["inner"]) >= 1 and canon_type(qt(init["inner"][0])) == "int"
+                and init["inner"][0].get("inner") and unwrap(init["inner"][0]["inner"][0]).get("kind") == "IntegerLiteral"
+                and unwrap(init["inner"][0]["inner"][0])["value"] == "0"):
+            raise Unsupported("inner loop does not start with `int i = 0`")
+        cname = init["inner"][0]["name"]
+        isvar = lambda n: unwrap(n).get("kind") == "DeclRefExpr" and unwrap(n)["referencedDecl"].get("name") == cname
+        if not (cond.get("kind") == "BinaryOperator" and cond["opcode"] == "<" and isvar(cond["inner"][0]) and
+                kind_of_type(qt(cond["inner"][1])) == "int"):
+            raise Unsupported("inner loop condition is not `%s < bound`" % cname)
+
+        # increment: `++i`, or a comma list `++i, idx += d, ++p` — the other items run at the end of every iteration
+        def comma_items(n):
+            if n.get("kind") == "BinaryOperator" and n.get("opcode") == ",":
+                return comma_items(n["inner"][0]) + comma_items(n["inner"][1])
+            return [n]
+        incs = comma_items(inc)
+        own = [x for x in incs if x.get("kind") == "UnaryOperator" and x["opcode"] == "++" and isvar(x["inner"][0])]
+        extra_inc = [x for x in incs if x not in own]
+        if len(own) != 1:
+            raise Unsupported("inner loop increment does not contain exactly one `++%s`" % cname)
+        for x in extra_inc:
+            if find_all(x, lambda y: y.get("kind") == "DeclRefExpr" and y.get("referencedDecl", {}).get("name") == cname):
+                raise Unsupported("inner loop increment item uses the counter `%s`" % cname)
+        if has_exit(body):
+            raise Unsupported("break / continue / return inside an inner loop")
+        saved_reads, self.reads = self.reads, set()
+        hi = self.e(cond["inner"][1])
+        hi_members, self.reads = self.reads, saved_reads | self.reads
+        pre = self.flush()
+        # further variables of the init-statement (`int j = 0, idx = k`): int locals that live for the loop
+        for d in init["inner"][1:]:
+            if d.get("kind") != "VarDecl" or canon_type(qt(d)) != "int" or not d.get("inner"):
+                raise Unsupported("inner loop init-statement declares %s" % qt(d))
+            ev = self.var(d["name"])
+            if ev in self.bound:
+                raise Unsupported("inner loop variable `%s` shadows a variable in scope" % ev)
+            pre += "let %s : Int := %s\n" % (ev, self.e(d["inner"][0]))
+            if self.pre:
+                raise Unsupported("state-changing call in a loop init-statement")
+            self.declare(ev, "Int")
+        if extra_inc:
+            body = {"kind": "CompoundStmt", "inner": (list(body.get("inner", [])) if body.get("kind") == "CompoundStmt" else [body]) + extra_inc}
+        saved_np, self.nonpreserving = self.nonpreserving, set()
+        saved_writes, self.writes = self.writes, set()
+        v = self.var(cname)
+        if v in self.bound:
+            raise Unsupported("inner loop counter `%s` shadows a variable in scope" % v)
+        bound0 = set(self.bound)
+        self.frames.append({"decl": {v}, "assigned": []})
+        self.bound.add(v)
+        self.types[v] = "Int"
+        self.loop_vars.add(v)
+        self.inner_depth += 1
+        txt = self.stmts([body], JOIN)
+        self.inner_depth -= 1
+        self.loop_vars.discard(v)
+        fr = self.frames.pop()
+        self.bound = set(bound0)
+        body_writes, self.writes = self.writes, saved_writes | self.writes
+        vs = fr["assigned"]
+        if not vs:
+            raise Unsupported("inner loop without effect")
+        # the bound is evaluated once here; C++ re-evaluates it: it must not depend on what the body assigns
+        if hi_members & body_writes:
+            raise Unsupported("inner loop bound `%s` reads member(s) %s, which the body assigns" % (hi, sorted(hi_members & body_writes)))
+        for w in vs:
+            if w not in bound0:
+                raise Unsupported("`%s` is assigned in an inner loop but not defined before it" % w)
+            if w not in ("s", "self") and re.search(r"(?<![A-Za-z0-9_'.])%s(?![A-Za-z0-9_'])" % re.escape(w), hi):
+                # `i < y.size()` where the body only writes cells of `y` (its length cannot change) is fine
+                rest_hi = hi.replace("(arrSize %s)" % w, "")
+                if w in self.nonpreserving or re.search(r"(?<![A-Za-z0-9_'.])%s(?![A-Za-z0-9_'])" % re.escape(w), rest_hi):
+                    raise Unsupported("inner loop bound `%s` depends on `%s`, which the body assigns" % (hi, w))
+            self.note_assigned(w)
+        self.nonpreserving |= saved_np
+        nat = v + "_n"
+        k = 0
+        while nat in self.bound:
+            k += 1
+            nat = "%s_n%d" % (v, k)
+        head = "let %s : Int := Int.ofNat %s\n" % (v, nat)
+        # the body becomes a definition of its own: parameters = the names in scope it mentions (not assigned), then the
+        # accumulator (the assigned variables), then the counter
+        tup = vs[0] if len(vs) == 1 else "(%s)" % ", ".join(vs)
+        for w in vs:
+            if w not in self.types:
+                raise Unsupported("inner loop assigns `%s`, whose Lean type is unknown" % w)
+        acc_t = self.types[vs[0]] if len(vs) == 1 else " × ".join(self.types[w] for w in vs)
+        body_txt = head + txt.replace(JOIN, tup)
+        mentions = lambda nm, t: re.search(r"(?<![A-Za-z0-9_'.])%s(?![A-Za-z0-9_'])" % re.escape(nm), t) is not None
+        # parameter order = order of first occurrence in the body (independent of the C++ names: a renamed local
+        # keeps its position), `eps` first
+        cand = [nm for nm in sorted(set(bound0) | {"eps"}) if nm not in vs and mentions(nm, body_txt)]
+        first = lambda nm: re.search(r"(?<![A-Za-z0-9_'.])%s(?![A-Za-z0-9_'])" % re.escape(nm), body_txt).start()
+        free = sorted(cand, key=lambda nm: (nm != "eps", first(nm)))
+        for nm in free:
+            if nm not in self.types:
+                raise Unsupported("inner loop body uses `%s`, whose Lean type is unknown" % nm)
+        self.n_loops = getattr(self, "n_loops", 0) + 1
+        lname = "%s_loop%d" % (self.name_hint, self.n_loops)
+        if len(vs) == 1:
+            accp, unpack_in = vs[0], ""
+        else:
+            accp = "acc"
+            unpack_in = "".join("let %s := acc%s\n" % (w, ".2" * i + (".1" if i < len(vs) - 1 else "")) for i, w in enumerate(vs))
+        self.aux_defs.append(
+            "/-- one iteration of the inner loop no. %d (`for (int %s = 0; %s < %s; %s++)`) on %s -/\n"
+            "def %s %s (%s : %s) (%s : Nat) : %s :=\n%s\n" % (
+                self.n_loops, cname, cname, hi, cname, ", ".join("`%s`" % w for w in vs),
+                lname, " ".join("(%s : %s)" % (nm, self.types[nm]) for nm in free), accp, acc_t, nat, acc_t,
+                indent(unpack_in + body_txt)))
+        call = "(%s %s)" % (lname, " ".join(free)) if free else lname
+        if len(vs) == 1:
+            return pre + "let %s := ((List.range (Int.toNat %s)).foldl %s %s)\n" % (vs[0], hi, call, vs[0])
+        j = "acc_%d" % self.fresh_join()
+        unpack = "".join("let %s := %s%s\n" % (w, j, ".2" * i + (".1" if i < len(vs) - 1 else "")) for i, w in enumerate(vs))
+        return pre + "let %s := ((List.range (Int.toNat %s)).foldl %s %s)\n" % (j, hi, call, tup) + unpack
+
+    def is_void_literal(self, n):
+        while n.get("kind") == "ParenExpr":
+            n = n["inner"][0]
+        return n.get("kind") in ("CXXStaticCastExpr", "CStyleCastExpr") and n.get("castKind") == "ToVoid" and \
+            n["inner"][0].get("kind") == "IntegerLiteral"
+
+    def slice_call(self, a):
+        """`A.slice(i1, i2)` with the default stride -> (A node, i1 node, i2 node) or None"""
+        while a.get("kind") in ("MaterializeTemporaryExpr", "CXXBindTemporaryExpr") or \
+                (a.get("kind") == "ImplicitCastExpr" and a.get("castKind") == "NoOp"):
+            a = a["inner"][0]
+        if a.get("kind") != "CXXMemberCallExpr" or unwrap(a["inner"][0]).get("name") != "slice" or \
+                not re.match(r"(const_)?slice_t<(double|cmplx_t)>$", canon_type(strip_type(qt(a)))):
+            return None
+        args = a["inner"][1:]
+        if len(args) != 3 or args[2].get("kind") != "CXXDefaultArgExpr" or any(kind_of_type(qt(x)) != "int" for x in args[:2]):
+            raise Unsupported("slice(…) with arguments other than (int, int) and the default stride")
+        return unwrap(a["inner"][0])["inner"][0], args[0], args[1]
+
+    def slice_rhs(self, n):
+        """`base_array<T>(A.slice(i1, i2))` (implicit conversion of a stride-1 slice to an array) -> (A node, i1 node, i2 node) or None"""
+        while n.get("kind") in ("MaterializeTemporaryExpr", "CXXBindTemporaryExpr", "ExprWithCleanups") or \
+                (n.get("kind") == "ImplicitCastExpr" and n.get("castKind") in ("ConstructorConversion", "NoOp")):
+            n = n["inner"][0]
+        if n.get("kind") != "CXXConstructExpr" or not re.match(r"void \(const (const_)?slice_t<(double|cmplx_t)> &\)$",
+                                                                canon_type(n.get("ctorType", {}).get("qualType", ""))):
+            return None
+        return self.slice_call(n["inner"][0])
+
+    def has_fallible(self, n):
+        """does the subtree contain a statement the translation gives an `Except` result (slice construction / conversion,
+        call of a sub-object function that may throw)?"""
+        def hit(x):
+            if x.get("kind") == "CXXMemberCallExpr" and unwrap(x["inner"][0]).get("name") == "slice":
+                return True
+            if x.get("kind") == "CXXMemberCallExpr" and unwrap(x["inner"][0]).get("kind") == "MemberExpr":
+                m = self.member_of_obj(unwrap(x["inner"][0])["inner"][0]) if unwrap(x["inner"][0]).get("inner") else None
+                if m in self.subobjs and isinstance(self.subobjs[m]["ops"].get(unwrap(x["inner"][0])["name"]), dict):
+                    return True
+            return False
+        return bool(find_all(n, hit))
+
+    def fallible_ok(self, what):
+        if self.frames or self.in_loop or not self.fallible:
+            raise Unsupported("%s inside a branch / loop, or in a function not declared fallible" % what)
+
+    def stmt_slice_to_slice(self, s, cont):
+        """`D.slice(d1, d2) = S.slice(s1, s2);` — both slice constructors and the count check may throw"""
+        self.fallible_ok("slice assignment")
+        sig = canon_type(qt(unwrap(s["inner"][0])))
+        if not re.match(r"slice_t<(double|cmplx_t)> &\(const (const_)?slice_t<(double|cmplx_t)> &\)$", sig):
+            raise Unsupported("slice assignment through %s" % sig)
+        dst, src = self.slice_call(s["inner"][1]), self.slice_call(s["inner"][2])
+        if dst is None or src is None:
+            raise Unsupported("slice assignment whose sides are not `A.slice(i1, i2)`")
+        if canon_type(strip_type(qt(dst[0]))) != canon_type(strip_type(qt(src[0]))):
+            raise Unsupported("slice assignment between %s and %s" % (qt(dst[0]), qt(src[0])))
+        m = self.member_of_obj(dst[0])
+        b = unwrap(dst[0])
+        if m is not None and self.members.get(m, (0, ""))[1] in ("Array α", "Array (Cx α)"):
+            tgt = ("member", m)
+        elif b.get("kind") == "DeclRefExpr" and b["referencedDecl"].get("name") in self.local_arrays:
+            tgt = ("local", b["referencedDecl"]["name"])
+        else:
+            raise Unsupported("slice assignment into %s" % b.get("kind"))
+        srcv = self.array_value(src[0])
+        if srcv == self.tgt_cur(tgt):
+            raise Unsupported("slice assignment within one array")
+        # C++17: the right operand of `=` is sequenced before the left one: the source slice is constructed first
+        s1, s2 = self.e(src[1]), self.e(src[2])
+        d1, d2 = self.e(dst[1]), self.e(dst[2])
+        pre = self.flush()
+        self.n_slices += 1
+        v = "sl_%d" % self.n_slices
+        self.bound.add(v)
+        self.prims.add("arrSliceAssign")
+        cur = self.tgt_cur(tgt)
+        asg = self.tgt_set(tgt, v)
+        return pre + "match (arrSliceAssign %s %s %s %s %s %s) with\n| .error err => (.error err)\n| .ok %s =>\n%s" % (
+            cur, d1, d2, srcv, s1, s2, v, indent(asg + cont()))
+
+    def stmt_slice_assign(self, s, cont):
+        """`A = B.slice(i1, i2);` — the slice constructor may throw: the rest of the function continues in the `.ok` branch"""
+        self.fallible_ok("slice conversion")
+        lhs = s["inner"][1]
+        tl = canon_type(strip_type(qt(lhs)))
+        el = "double" if tl in ARRAY_REAL_T else ("cmplx_t" if tl in ARRAY_CX_T else None)
+        sig = canon_type(qt(unwrap(s["inner"][0])))
+        if el is None or sig != "base_array<%s> &(base_array<%s> &&) noexcept" % (el, el):
+            raise Unsupported("assignment of a slice to %s (callee %s)" % (tl, sig))
+        base, i1, i2 = self.slice_rhs(s["inner"][2])
+        if canon_type(strip_type(qt(base))) != tl:
+            raise Unsupported("slice of %s assigned to %s" % (qt(base), tl))
+        src = self.array_value(base)
+        a, b = self.e(i1), self.e(i2)
+        pre = self.flush()
+        self.n_slices += 1
+        v = "sl_%d" % self.n_slices
+        self.bound.add(v)
+        self.prims.add("arrSlice")
+        asg = self.assign(lhs, v, whole=True)
+        return pre + "match (arrSlice %s %s %s) with\n| .error err => (.error err)\n| .ok %s =>\n%s" % (src, a, b, v, indent(asg + cont()))
+
+    def stmt_proc(self, s):
+        """`f(A.data(), B.data(), args…);` — a translated helper that works in place on the array whose first element its
+        (single) pointer-to-non-const parameter is handed: that array becomes the function's result"""
+        pr = self.procs[self.callee_name(s)]
+        sig = canon_type(qt(unwrap(s["inner"][0])))
+        if sig not in pr:
+            raise Unsupported("call of %s with signature %s" % (self.callee_name(s), sig))
+        pr = pr[sig]
+        args = [a for a in s["inner"][1:] if a.get("kind") != "CXXDefaultArgExpr"]
+        if len(args) != len(pr["kinds"]):
+            raise Unsupported("call of %s with %d arguments" % (self.callee_name(s), len(args)))
+        tgt, texts = None, []
+        for a, (kd, lt) in zip(args, pr["kinds"]):
+            if kd in ("ptr", "cptr"):
+                t, off = self.ptr_into(a)
+                if off != "(0 : Int)" or self.tgt_type(t) != lt:
+                    raise Unsupported("call of %s: an array argument is not `A.data()` of an array of the expected type" % self.callee_name(s))
+                if kd == "ptr":
+                    if tgt is not None:
+                        raise Unsupported("call of %s: two arrays written" % self.callee_name(s))
+                    tgt = t
+                texts.append((kd, t, self.tgt_cur(t)))
+            else:
+                if lean_type_of(qt(a)) != lt:
+                    raise Unsupported("call of %s: argument of type %s" % (self.callee_name(s), qt(a)))
+                texts.append(("val", None, self.e(a)))
+        if tgt is None:
+            raise Unsupported("call of %s without an array to work on" % self.callee_name(s))
+        for kd, t, _ in texts:
+            if kd == "cptr" and t == tgt:
+                raise Unsupported("call of %s: the array written is also passed as a read-only (restrict) argument" % self.callee_name(s))
+        return self.tgt_set(tgt, "(%s %s)" % (pr["lean"], " ".join(x[2] for x in texts)))
+
+    def bounded_walk(self, s):
+        """`while (A && v < E && B) ++v;` (or `--v` with `v > E`): a walk of the int local `v` that a conjunct of the condition
+        bounds by an expression `E` the loop cannot change (the body only steps `v`).  At most `E - v` iterations can run, so the
+        loop is the fuel-bounded recursion with that fuel: it stops because the condition fails, never because the fuel is used up."""
+        parts = [c for c in s["inner"] if c.get("kind")]
+        if s.get("hasVar") or len(parts) != 2:
+            raise Unsupported("while with a condition variable")
+        cond, body = parts
+        bs = [c for c in (body.get("inner", []) if body.get("kind") == "CompoundStmt" else [body]) if c.get("kind") != "NullStmt"]
+        if not (len(bs) == 1 and bs[0].get("kind") == "UnaryOperator" and bs[0].get("opcode") in ("++", "--") and
+                unwrap(bs[0]["inner"][0]).get("kind") == "DeclRefExpr" and canon_type(strip_type(qt(bs[0]["inner"][0]))) == "int" and
+                unwrap(bs[0]["inner"][0])["referencedDecl"].get("kind") == "VarDecl"):
+            raise Unsupported("while loop whose body is not a single `++v` / `--v` on an int local")
+        up = bs[0]["opcode"] == "++"
+        cname = unwrap(bs[0]["inner"][0])["referencedDecl"]["name"]
+        v = self.var(cname)
+        if v not in self.bound or v in self.uninit or v in self.loop_vars:
+            raise Unsupported("while loop on `%s`, which is not an assigned local" % cname)
+        isv = lambda n: unwrap(n).get("kind") == "DeclRefExpr" and unwrap(n)["referencedDecl"].get("name") == cname
+        mentions_v = lambda n: bool(find_all(n, lambda x: x.get("kind") == "DeclRefExpr" and x.get("referencedDecl", {}).get("name") == cname))
+
+        def conjuncts(n):
+            n0 = n
+            while n0.get("kind") == "ParenExpr":
+                n0 = n0["inner"][0]
+            if n0.get("kind") == "BinaryOperator" and n0.get("opcode") == "&&":
+                return conjuncts(n0["inner"][0]) + conjuncts(n0["inner"][1])
+            return [n0]
+        bound = None
+        for c in conjuncts(cond):
+            if c.get("kind") != "BinaryOperator" or c.get("opcode") not in ("<", "<=", ">", ">="):
+                continue
+            l, r = c["inner"]
+            if kind_of_type(qt(l)) != "int" or kind_of_type(qt(r)) != "int":
+                continue
+            op = c["opcode"]
+            if isv(r) and not mentions_v(l):
+                l, r, op = r, l, {"<": ">", "<=": ">=", ">": "<", ">=": "<="}[op]
+            if not (isv(l) and not mentions_v(r)):
+                continue
+            if (up and op in ("<", "<=")) or (not up and op in (">", ">=")):
+                bound = (op, r)
+                break
+        if bound is None:
+            raise Unsupported("while loop: no conjunct of the condition bounds `%s` in the direction it moves" % cname)
+        saved_reads, self.reads = self.reads, set()
+        E = self.e(bound[1])
+        ctext = self.e(cond)
+        self.reads = saved_reads | self.reads
+        if self.pre:
+            raise Unsupported("state-changing call in a while condition")
+        pre = ""
+        op = bound[0]
+        fuel = {"<": "(%s - %s)" % (E, v), "<=": "((%s - %s) + (1 : Int))" % (E, v),
+                ">": "(%s - %s)" % (v, E), ">=": "((%s - %s) + (1 : Int))" % (v, E)}[op]
+        mentions = lambda nm, t: re.search(r"(?<![A-Za-z0-9_'.])%s(?![A-Za-z0-9_'])" % re.escape(nm), t) is not None
+        cand = [nm for nm in sorted(set(self.bound) | {"eps"}) if nm != v and mentions(nm, ctext)]
+        first = lambda nm: re.search(r"(?<![A-Za-z0-9_'.])%s(?![A-Za-z0-9_'])" % re.escape(nm), ctext).start()
+        # parameter order = order of declaration in the translated function (independent of the C++ names and of the order in
+        # which the condition mentions them), `eps` first; names without a recorded declaration: by first occurrence, last
+        rank = lambda nm: self.decl_order.index(nm) if nm in self.decl_order else len(self.decl_order) + first(nm)
+        free = sorted(cand, key=lambda nm: (nm != "eps", rank(nm)))
+        for nm in free:
+            if nm not in self.types:
+                raise Unsupported("while condition uses `%s`, whose Lean type is unknown" % nm)
+        self.n_loops = getattr(self, "n_loops", 0) + 1
+        lname = "%s_while%d" % (self.name_hint, self.n_loops)
+        step = "(%s %s (1 : Int))" % (v, "+" if up else "-")
+        self.aux_defs.append(
+            "/-- the loop no. %d, `while (…) %s%s;`: a bounded walk — the condition contains `%s %s %s`, which the body cannot change,\n"
+            "so with `fuel ≥ %s` on entry the recursion stops because the condition fails -/\n"
+            "def %s %s : Nat → Int → Int\n  | 0, %s => %s\n  | fuel + 1, %s =>\n    if %s then %s %sfuel %s else %s\n" % (
+                self.n_loops, "++" if up else "--", cname, cname, op, E, fuel,
+                lname, " ".join("(%s : %s)" % (nm, self.types[nm]) for nm in free), v, v, v, ctext, lname,
+                "".join(nm + " " for nm in free), step, v))
+        self.note_assigned(v)
+        return pre + "let %s := %s %s(Int.toNat %s) %s\n" % (v, lname, "".join(nm + " " for nm in free), fuel, v)
+
     def flush_before(self, a):
         # hoisted lets of the right-hand side come first, then the assignment itself (which may carry its own
         # `let s := …` produced by set_member — those were appended to the text `a`, not to self.pre)
@@ -1719,6 +2681,26 @@ class StepTr(Tr):
     def fresh_join(self):
         self._join += 1
         return self._join
+
+
+_pi_ok = []
+
+
+def dsplib_pi_is_pi():
+    """`constexpr real_t pi = 3.14159…` of include/dsplib/types.h must be the double nearest to π (it is `Fn.pi` in Lean)"""
+    if not _pi_ok:
+        import math
+        docs = clang_ast("#include <dsplib/types.h>\n", "dsplib::pi")
+        vs = [d for d in docs if d.get("kind") == "VarDecl" and d.get("name") == "pi"]
+        ok = False
+        if len(vs) == 1 and canon_type(qt(vs[0])) == "const real_t":
+            lits = find_all(vs[0], lambda x: x.get("kind") == "FloatingLiteral")
+            ok = len(lits) == 1 and float(lits[0]["value"]) == math.pi and \
+                not find_all(vs[0], lambda x: x.get("kind") in ("BinaryOperator", "UnaryOperator", "CallExpr"))
+        _pi_ok.append(ok)
+    if not _pi_ok[0]:
+        raise Unsupported("dsplib::pi is not the literal double nearest to π")
+    return True
 
 
 def check_members(rec, table, what):
@@ -1743,15 +2725,17 @@ def width_note(cxx):
     return ""
 
 
-def struct_text(name, doc, fields):
-    """fields: list of (lean field, lean type, C++ decl text)"""
+def struct_text(name, doc, fields, notes=None):
+    """fields: list of (lean field, lean type, C++ decl text); notes: lean field -> remark appended to its doc comment"""
+    notes = notes or {}
     if not fields:
         return "/-- %s (none) -/\nstructure %s (α : Type) where\n  mk ::\n" % (doc, name)
     return "/-- %s -/\nstructure %s (α : Type) where\n%s\n" % (
-        doc, name, "\n".join("  /-- `%s`%s -/\n  %s : %s" % (c, width_note(c.rsplit(" ", 1)[0]), f, t) for f, t, c in fields))
+        doc, name, "\n".join("  /-- `%s`%s%s -/\n  %s : %s" % (c, width_note(c.rsplit(" ", 1)[0]), notes.get(f, ""), f, t)
+                             for f, t, c in fields))
 
 
-def loop_skeleton(fn, obj=None):
+def loop_skeleton(fn, obj=None, out_decls=()):
     """`fn` must be: declarations; ONE canonical `for (int i = 0; i < n; ++i)` over the whole input array; return.
     Returns (loop variable, input parameter name, body node)."""
     arrs = [p for p in params_of(fn) if canon_type(strip_type(qt(p))) in ARRAY_REAL_T | ARRAY_CX_T]
@@ -1784,6 +2768,17 @@ def loop_skeleton(fn, obj=None):
         k = c.get("kind")
         if c is f:
             seen_for = True
+            continue
+        if k == "DeclStmt" and not seen_for and all(d.get("kind") == "VarDecl" and d.get("name") in out_decls for d in c["inner"]):
+            # `auto y = zeros(x.size());` — the output array: as long as the input, its initial contents are never read by the
+            # loop body (a read of an output cell before it is written is refused)
+            for d in c["inner"]:
+                i0 = unwrap(d["inner"][0]) if d.get("inner") else {}
+                while i0.get("kind") in ("CXXConstructExpr", "ImplicitCastExpr", "MaterializeTemporaryExpr", "CXXBindTemporaryExpr") and len(i0.get("inner", [])) == 1:
+                    i0 = i0["inner"][0]
+                if not (canon_type(strip_type(qt(d))) in ARRAY_REAL_T | ARRAY_CX_T and i0.get("kind") == "CallExpr" and
+                        Tr().callee_name(i0) == "zeros" and len(i0["inner"]) == 2 and is_size(i0["inner"][1])):
+                    raise Unsupported("%s: output array %s is not declared as `zeros(%s.size())`" % (fn.get("name"), d.get("name"), xin))
             continue
         if k == "DeclStmt" and not seen_for:
             if touches_obj(c):
@@ -1840,7 +2835,7 @@ def forwards_to(rec, name, target):
         raise Unsupported("%s does not pass its argument to %s" % (name, target))
 
 
-STEPS_HEAD = ("namespace Dsp\nnamespace Gen\n", SCALAR_VARS)
+STEPS_HEAD = ("set_option linter.unusedVariables false\nnamespace Dsp\nnamespace Gen\n", SCALAR_VARS)
 
 
 # ------------------------------------------------------------------------------------------
@@ -1850,7 +2845,7 @@ STEPS_HEAD = ("namespace Dsp\nnamespace Gen\n", SCALAR_VARS)
 def gen_steps_base():
     prefetch([("#include <dsplib/array.h>\n", "base_array::operator[]"), ('#include "math.cpp"\n', "dsplib::sum"),
               ("#include <dsplib/math.h>\n", "dsplib::max"), ("#include <dsplib/math.h>\n", "dsplib::min"),
-              ("#include <dsplib/math.h>\n", "dsplib::abs2")])
+              ("#include <dsplib/math.h>\n", "dsplib::abs2"), ("#include <dsplib/math.h>\n", "dsplib::conj")])
     out = [HEADER % "include/dsplib/array.h (base_array::operator[](int)), lib/math.cpp (sum(arr_real)), "
                     "include/dsplib/math.h (max / min of two scalars, abs2(cmplx_t))",
            "import DspVerif.Gen.Cmplx\n" + STEPS_HEAD[0], STEPS_HEAD[1]]
@@ -1883,6 +2878,26 @@ def gen_steps_base():
         raise Unsupported("base_array::operator[](int): const and non-const overloads resolve the index differently")
     out.append("/-- `base_array<T>::operator[](int i)` (both overloads): the position in `_vec` that index `i` denotes,\n"
                "`size` = `_vec.size()` -/\ndef arrIdx (size i : Int) : Int :=\n  %s\n" % texts[0])
+    # T(0) for the two element types: real_t(0); cmplx_t() — the default arguments of the constructor
+    docs = clang_ast("#include <dsplib/types.h>\n", "cmplx_t")
+    crec = [d for d in docs if d.get("kind") == "CXXRecordDecl" and d.get("inner")][0]
+    ctors = [c for c in crec["inner"] if c.get("kind") == "CXXConstructorDecl" and len(params_of(c)) == 2 and
+             all(kind_of_type(qt(p_)) == "real" for p_ in params_of(c))]
+    if len(ctors) != 1:
+        raise Unsupported("cmplx_t(real_t, real_t) not found")
+    dfl = []
+    for p_ in params_of(ctors[0]):
+        lits = find_all(p_, lambda x: x.get("kind") in ("IntegerLiteral", "FloatingLiteral"))
+        if len(lits) != 1 or float(lits[0]["value"]) != 0.0:
+            raise Unsupported("cmplx_t constructor: default argument of %s is not 0" % p_["name"])
+    inits = [ci for ci in ctors[0]["inner"] if ci.get("kind") == "CXXCtorInitializer"]
+    tgt = [(ci.get("anyInit", {}).get("name"), find_all(ci, lambda x: x.get("kind") == "DeclRefExpr")) for ci in inits]
+    if [(t, [r["referencedDecl"]["name"] for r in rs]) for t, rs in tgt] != \
+            [("re", [params_of(ctors[0])[0]["name"]]), ("im", [params_of(ctors[0])[1]["name"]])]:
+        raise Unsupported("cmplx_t(real_t, real_t) does not initialise re, im from its arguments")
+    out.append("/-- `real_t(0)`: a value-initialised element of an `arr_real` -/\ndef zeroR : α := (Fn.ofInt (0 : Int))\n")
+    out.append("/-- `cmplx_t()` = `cmplx_t(0, 0)` (default arguments of the constructor): a value-initialised element of an `arr_cmplx` -/\n"
+               "def zeroC : Cx α := (Cx.mk (Fn.ofInt (0 : Int)) (Fn.ofInt (0 : Int)))\n")
     out.append("/-- read `a[i]` through `base_array::operator[](int)`; outside `0 ≤ idx < size` the C++ is undefined\n"
                "(an `assert`), the value here is `dflt` -/\n"
                "def arrGet {β : Type} (dflt : β) (a : Array β) (i : Int) : β :=\n  a.getD (arrIdx (Int.ofNat a.size) i).toNat dflt\n")
@@ -1935,6 +2950,16 @@ def gen_steps_base():
         raise Unsupported("abs2(const cmplx_t&) not found")
     out.append("/-- `abs2(const cmplx_t&)` of include/dsplib/math.h -/\ndef abs2c (%s : Cx α) : α :=\n%s\n" % (
         params_of(fs[0])[0]["name"], indent(Tr().stmts([body_of(fs[0])], "?", False))))
+    # --- conj(real_t), conj(cmplx_t)
+    docs = clang_ast("#include <dsplib/math.h>\n", "dsplib::conj")
+    for kind, lname, lt in (("real", "conjr", "α"), ("cx", "conjc", "Cx α")):
+        fs = [d for d in docs if d.get("kind") == "FunctionDecl" and d.get("name") == "conj" and len(params_of(d)) == 1 and
+              kind_of_type(qt(params_of(d)[0])) == kind and any(c.get("kind") == "CompoundStmt" for c in d.get("inner", []))]
+        if len(fs) != 1:
+            raise Unsupported("conj(%s) not found" % kind)
+        out.append("/-- `conj(%s)` of include/dsplib/math.h -/\ndef %s (%s : %s) : %s :=\n%s\n" % (
+            "real_t" if kind == "real" else "cmplx_t", lname, params_of(fs[0])[0]["name"], lt, lt,
+            indent(Tr().stmts([body_of(fs[0])], "?", False))))
     out.append("end Gen\nend Dsp\n")
     return "\n".join(out)
 
@@ -1971,6 +2996,14 @@ def steps_user_calls():
             return "(abs2c %s)" % a[0]
         raise Unsupported("call of abs2 with signature %s" % sig)
 
+    def conj(a, n):
+        sig = callee_sig(n)
+        if sig == "real_t (real_t)":
+            return "(conjr %s)" % a[0]
+        if sig == "cmplx_t (cmplx_t)":
+            return "(conjc %s)" % a[0]
+        raise Unsupported("call of conj with signature %s" % sig)
+
     def sum_(a, n):
         if callee_sig(n) == "real_t (const arr_real &)":
             return "(sumR %s)" % a[0]
@@ -1983,7 +3016,20 @@ def steps_user_calls():
             raise Unsupported("call of %s with signature %s" % (lean, callee_sig(n)))
         return h
 
-    return {"max": mm("max"), "min": mm("min"), "abs2": abs2, "sum": sum_, "db2mag": one_real("db2mag"),
+    def dot(a, n):
+        sig = callee_sig(n)
+        if sig == "real_t (const arr_real &, const arr_real &)" and len(a) == 2:
+            return "(dotRR %s %s)" % (a[0], a[1])
+        if sig == "cmplx_t (const arr_cmplx &, const arr_cmplx &)" and len(a) == 2:
+            return "(dotCC %s %s)" % (a[0], a[1])
+        raise Unsupported("call of dot with signature %s" % sig)
+
+    def zeros(a, n):
+        if callee_sig(n) == "arr_real (int)" and len(a) == 1:
+            return "(arrNew zeroR %s)" % a[0]        # zeros(int) (PINNED in unit StepsArray)
+        raise Unsupported("call of zeros with signature %s" % callee_sig(n))
+
+    return {"max": mm("max"), "min": mm("min"), "abs2": abs2, "sum": sum_, "conj": conj, "db2mag": one_real("db2mag"), "dot": dot, "zeros": zeros,
             "mag2db": one_real("mag2db"), "pow2db": one_real("pow2db"), "db2pow": one_real("db2pow")}
 
 
@@ -2001,7 +3047,7 @@ class EpsCall:
 
 
 def gen_processor(cls, rec, lean, table, entry, outputs, methods_spec, obj=None, subobjs=None, subobj_types=None,
-                  cxx_name=None):
+                  cxx_name=None, scratch=None, procs=None):
     """one stateful processor: Params / State structures, helper member functions, step function(s).
 
     rec          : CXXRecordDecl holding the data members
@@ -2017,6 +3063,22 @@ def gen_processor(cls, rec, lean, table, entry, outputs, methods_spec, obj=None,
         if lt is None:
             raise Unsupported("%s::%s: C++ type %s has no Lean counterpart" % (cls, m, table[m]))
         members[m] = (m.lstrip("_").rstrip("_"), lt, "%s %s" % (table[m], m))
+    # loop-carried locals: arrays declared in front of the sample loop (`base_array<T> g(_n);`).  They keep their contents
+    # from one iteration to the next, exactly like members during one call: they become fields of the State structure
+    # (no guess about "rewritten before read"), and `<lean>Enter` gives the values their declarations leave them with.
+    scratch = scratch or {}
+    order = list(order)
+    notes = {}
+    for nm, sc in scratch.items():
+        lt = lean_type_of(sc["cxx"])
+        if lt not in ("Array α", "Array (Cx α)"):
+            raise Unsupported("%s: loop-carried local %s : %s" % (cls, nm, sc["cxx"]))
+        if nm in members or nm in [v[0] for v in members.values()] or nm in LEAN_KEYWORDS:
+            raise Unsupported("%s: loop-carried local %s is named like a member" % (cls, nm))
+        members[nm] = (nm, lt, "%s %s" % (canon_type(sc["cxx"]), nm))
+        notes[nm] = " — a LOCAL of `%s`, declared in front of the sample loop (loop-carried)" % sc.get("fn", "process")
+        order.append(nm)
+    scratch_ids = {nm: sc["id"] for nm, sc in scratch.items()}
     P, S = "%sStepParams" % cls, "%sStepState" % cls
 
     def translate_all(state):
@@ -2047,12 +3109,14 @@ def gen_processor(cls, rec, lean, table, entry, outputs, methods_spec, obj=None,
             probe.stmts([body_of(m)], FALLOFF)
             effect = bool(probe.writes)
             tr = StepTr(obj=None, members=members, state=state, methods=mtab, subobjs=subobjs, user_calls=calls, effect=effect)
+            tr.types.update({"p": "%s α" % P, "s": "%s α" % S})
+            tr.name_hint = "%s%s" % (lean, "".join(w.capitalize() for w in mname.strip("_").split("_")))
             ps = []
             for p_ in params_of(m):
                 lt = lean_type_of(qt(p_))
                 if lt not in ("α", "Int", "Cx α"):
                     raise Unsupported("%s::%s parameter %s : %s" % (cls, mname, p_["name"], qt(p_)))
-                tr.declare(tr.var(p_["name"]))
+                tr.declare(tr.var(p_["name"]), lt)
                 ps.append("(%s : %s)" % (tr.var(p_["name"]), lt))
             rt = lean_type_of(m["type"]["qualType"].split("(")[0])
             void = m["type"]["qualType"].split("(")[0].strip() == "void"
@@ -2070,13 +3134,39 @@ def gen_processor(cls, rec, lean, table, entry, outputs, methods_spec, obj=None,
             texts.append(("method", mname, lname, "(p : %s α)%s %s" % (P, sarg, " ".join(ps)), ret, body, tr))
             mtab[mname] = {"lean": lname + (" eps" if False else ""), "effect": effect, "reads": sorted(tr.reads),
                            "writes": sorted(tr.writes), "reads_state": reads_state, "tr": tr}
-        for fn, suffix, sample_t, out_ts in entry:
-            var, xin, body = loop_skeleton(fn, obj)
+        for ent in entry:
+            fn, suffix, sample_t, out_ts = ent[:4]
+            opts = ent[4] if len(ent) > 4 else {}
+            if opts.get("indexed"):
+                var, body = opts["var"], opts["body"]
+                cells = {o: "%s_%s" % (o, var) for o in outputs}
+                ctypes = {cells[o]: t for o, t in zip(outputs, out_ts)}
+                zero = {"α": "zeroR", "Cx α": "zeroC"}
+                tr = StepTr(obj=obj, members=members, state=state, methods=mtab, subobjs=subobjs, user_calls=calls, effect=True,
+                            scratch=scratch_ids,
+                            loop={"var": var, "input": None, "sample": None, "outputs": cells, "cell_types": ctypes,
+                                  "indexed": True, "arrays": opts["arrays"],
+                                  "cell_init": {c: zero[ctypes[c]] for c in cells.values()}})
+                tr.types.update({"p": "%s α" % P, "s": "%s α" % S})
+                tr.name_hint = "%sStep%s" % (lean, suffix)
+                names = set(d["name"] for d in find_all(body, lambda x: x.get("kind") == "VarDecl"))
+                if names & (set(cells.values()) | {a[0] for a in opts["arrays"].values()} | {var}):
+                    raise Unsupported("a local of the loop body is named like a generated cell / array / the index")
+                res = "(s, %s)" % ", ".join(cells[o] for o in outputs)
+                text = "".join("let %s : %s := %s\n" % (c, ctypes[c], zero[ctypes[c]]) for c in cells.values()) + tr.stmts([body], res)
+                reads |= tr.reads
+                writes |= tr.writes
+                texts.append(("iloop", fn, suffix, (opts, out_ts, var), None, text, tr))
+                continue
+            var, xin, body = loop_skeleton(fn, obj, out_decls=opts.get("out_decls", ()))
             cells = {o: "%s_%s" % (o, var) for o in outputs}
             sample = "%s_%s" % (xin, var)
             tr = StepTr(obj=obj, members=members, state=state, methods=mtab, subobjs=subobjs, user_calls=calls, effect=True,
                         loop={"var": var, "input": xin, "sample": sample, "outputs": cells,
                               "cell_types": {cells[o]: t for o, t in zip(outputs, out_ts)}})
+            tr.procs = dict(procs or {})
+            tr.types.update({"p": "%s α" % P, "s": "%s α" % S, sample: sample_t})
+            tr.name_hint = "%sStep%s" % (lean, suffix)
             tr.bound.add(sample)
             names = set(d["name"] for d in find_all(body, lambda x: x.get("kind") == "VarDecl"))
             if names & (set(cells.values()) | {sample}):
@@ -2096,19 +3186,55 @@ def gen_processor(cls, rec, lean, table, entry, outputs, methods_spec, obj=None,
     texts, reads2, writes2, eps = translate_all(state)             # pass 2: the real split
     if writes2 != writes:
         raise Unsupported("%s: unstable state split" % cls)
-    used = reads2 | writes2
+    enter_text, enter_reads = None, set()
+    if scratch:
+        for nm in scratch:
+            if nm not in state:
+                raise Unsupported("%s: loop-carried local %s is never written in the loop" % (cls, nm))
+        itr = StepTr(obj=obj, members=members, state=state, user_calls=steps_user_calls(), effect=False)
+        sets = []
+        for nm, sc in scratch.items():
+            if kind_of_type(qt(sc["init"])) != "int":
+                raise Unsupported("%s: size argument of %s is not an int" % (cls, nm))
+            n_ = itr.e(sc["init"])
+            if itr.pre:
+                raise Unsupported("%s: declaration of %s has an effect" % (cls, nm))
+            sets.append("%s := (arrNew %s %s)" % (nm, "zeroR" if members[nm][1] == "Array α" else "zeroC", n_))
+        if (itr.reads | itr.writes) & set(scratch):
+            raise Unsupported("%s: a declaration reads a loop-carried local" % cls)
+        enter_reads = set(itr.reads)
+        enter_text = ("/-- the loop-carried locals as their declarations in front of the sample loop leave them:\n%s -/\n"
+                   "def %sEnter (p : %s α) (s : %s α) : %s α :=\n  { s with %s }\n" % (
+                       "\n".join("`%s %s(%s)`" % (canon_type(sc["cxx"]), nm, sc.get("src", "…")) for nm, sc in scratch.items()),
+                       lean, P, S, S, ", ".join(sets)))
+    used = reads2 | writes2 | enter_reads
     out = []
     out.append(struct_text(P, "members of `%s` that the per-sample code only reads (C++ declarations CHECKED against the translator's table)" % cxx_name,
                            [members[m] for m in order if m in used and m not in state]))
-    out.append(struct_text(S, "members of `%s` that the per-sample code writes" % cxx_name, [members[m] for m in order if m in state]))
+    out.append(struct_text(S, "members of `%s` that the per-sample code writes%s" % (
+        cxx_name, " (and the loop-carried locals of the function)" if scratch else ""), [members[m] for m in order if m in state], notes))
     unused = [m for m in order if m not in used]
     eps_arg = " (eps : α)" if eps.used else ""
+    if enter_text:
+        out.append(enter_text)
     for kind, a, b, c, d, body, tr in texts:
+        for aux in tr.aux_defs:
+            out.append(aux if not eps.used else aux)
         if kind == "method":
             # callers pass `eps` along when the unit uses it anywhere (uniform signatures)
             out.append("/-- `%s::%s(%s)`%s -/\ndef %s%s %s : %s :=\n%s\n" % (
                 cxx_name, a, ", ".join(qt(p_) for p_ in params_of(methods_named(rec, a)[0])),
                 ": members after the call and the value returned" if tr.effect else "", b, eps_arg, c, d, indent(body)))
+        elif kind == "iloop":
+            opts, out_ts, var = c
+            fn = a
+            arrs = " ".join("(%s : %s)" % (ln, lt) for ln, lt in opts["arrays"].values())
+            out.append("/-- loop body of `%s::%s` for the sample index `%s` (an `int`); %s;\n"
+                       "the output cells %s start at `T(0)`; result = (members written, %s).\n%s -/\n"
+                       "def %sStep%s%s (p : %s α) (s : %s α) %s (%s : Int) : %s α × %s :=\n%s\n" % (
+                           cxx_name, fn["name"], var, opts.get("doc", ""),
+                           ", ".join("`%s[%s]`" % (o, var) for o in outputs), ", ".join("`%s[%s]`" % (o, var) for o in outputs),
+                           opts.get("pin_doc", ""), lean, b, eps_arg, P, S, arrs, var, S, " × ".join(out_ts), indent(body)))
         else:
             sample, sample_t, out_ts, xin, var = c
             fn = a
@@ -2127,6 +3253,209 @@ def fix_method_calls(text, names, eps_used):
     for n in names:
         text = re.sub(r"(?<![A-Za-z0-9_])%s p " % re.escape(n), "%s eps p " % n, text)
     return text
+
+
+# ------------------------------------------------------------------------------------------
+# unit: StepsArray  (array primitives the stateful loops use: construction, size, memmove / fill on an array, array / scalar,
+#                    whole-array assignment; `dot` of lib/math.cpp)
+#
+# The primitives are small Lean definitions written HERE with the index arithmetic explicit; the C++ they stand for
+# (members of base_array<T> that only forward to std::vector, the scalar operator templates) is PINNED: the AST digest of each
+# such declaration is compared with the value recorded below, any change makes GEN fail.  `dot` is translated.
+
+ARR_TU = "#include <dsplib/array.h>\n"
+
+# what (filter, predicate description) -> digests, in declaration order
+ARRAY_PINS = {
+    # T* data() noexcept { return _vec.data(); }   and the const overload
+    "data": ['6182bb7d09b72049', '6b755eb5ae8af9fa'],
+    # int size() const noexcept { return int(_vec.size()); }
+    "size": ['78586b8d026a153c'],
+    # iterator begin() noexcept { return _vec.begin(); }  / const;   end() likewise
+    "begin": ['98198eb6ed4c1da4', '3b32e463e194df48'],
+    "end": ['5b279e6861a6fb51', '433b4529c7d75c5d'],
+    # operator=(const base_array<T>& rhs) { if (this == &rhs) return *this; _vec = rhs._vec; return *this; }
+    # operator=(base_array<T>&& rhs) noexcept { if (this == &rhs) return *this; _vec.swap(rhs._vec); return *this; }
+    "operator=": ['88bbd0e6a44e24ea', '52e88ec43679e71f'],
+    # template<class T2, class R = ResultType<T, T2>> base_array<R> operator/(const T2& rhs) const
+    #   { auto temp = array_cast<R>(*this); temp /= rhs; return temp; }
+    "operator/(scalar)": ['b195a0b26427ec35'],
+    # … base_array<R>& operator/=(const T2& rhs) noexcept { static_assert(is_same<T, R>); for (size_t i = 0; i < _vec.size(); ++i) _vec[i] /= rhs; return *this; }
+    "operator/=(scalar)": ['c9873c99cd9a0539'],
+    # array_cast<T_dst>(const base_array<T_src>& src): `return src;` when T_src == T_dst (the only case the primitives use)
+    "array_cast": ['9cdd6dd48a6f5033'],
+    # explicit base_array(int n) : _vec(n, 0) {}
+    "base_array(int)": ['120383027f293a1e'],
+    # template<typename T, class S_ = is_arithmetic<T>::type> constexpr cmplx_t(const T& v) : re{static_cast<real_t>(v)} {}   with   real_t im{0};
+    "cmplx_t(const T&)": ['dcc116b87cb6a73e'],
+    "cmplx_t::im": ['58a7d7541148e7a8'],
+    # template<class T2, class R = ResultType<T, T2>> base_array<R> operator|(const base_array<T2>& rhs) const { auto temp = array_cast<R>(*this); temp |= rhs; return temp; }
+    "operator|(array)": ['8474fad68874c163'],
+    # … base_array<R>& operator|=(const base_array<T2>& rhs) { _vec.insert(_vec.end(), rhs.begin(), rhs.end()); return *this; }
+    "operator|=(array)": ['5863ef964f59facf'],
+    # base_array(const base_array<T>& v) : _vec(v._vec) {}    base_array(base_array<T>&& v) noexcept : _vec(std::move(v._vec)) {}
+    "base_array(copy/move)": ['3d04e970146fffd4', 'caf1c3d8dd5271c4'],
+    # inline arr_real zeros(int n) { arr_real r(n); return r; }    (translated calls: `arrNew zeroR n`)
+    "zeros(int)": ['c0d5217cfd56d463'],
+}
+
+
+def _report_pins(name, got):
+    if os.environ.get("VERIF_REPORT_PINS"):
+        sys.stderr.write("PINS %s = %r\n" % (name, got))
+
+
+def pinned(tu, filt, pred, key, table, what):
+    """digests of the declarations selected by `pred` in the AST dump for `filt` must equal table[key]"""
+    ds = [d for d in clang_ast(tu, filt) if pred(d)]
+    got = [ast_digest(d) for d in ds]
+    _report_pins(key, got)
+    if got != table.get(key) and os.environ.get("VERIF_REPORT_PINS") != "collect":
+        raise Unsupported("%s differs from the pinned form (digests now %s)" % (what, got))
+    return ds
+
+
+def split_guards(stmts):
+    """leading `if (c) { throw …; }` statements (DSPLIB_ASSERT / DSPLIB_THROW) -> ([condition nodes], remaining statements)"""
+    conds = []
+    i = 0
+    while i < len(stmts):
+        st = stmts[i]
+        if st.get("kind") == "NullStmt":
+            i += 1
+            continue
+        if st.get("kind") == "IfStmt" and len(st["inner"]) == 2 and not st.get("hasInit") and not st.get("hasVar"):
+            then = st["inner"][1]
+            body = [c for c in (then.get("inner", []) if then.get("kind") == "CompoundStmt" else [then]) if c.get("kind") != "NullStmt"]
+            if len(body) == 1 and unwrap(body[0]).get("kind") == "CXXThrowExpr":
+                conds.append(st["inner"][0])
+                i += 1
+                continue
+        break
+    rest = stmts[i:]
+    if find_all({"inner": rest}, lambda x: x.get("kind") == "CXXThrowExpr"):
+        raise Unsupported("throw after the leading guards")
+    return conds, rest
+
+
+def gen_steps_array():
+    has_body = lambda d: any(c.get("kind") == "CompoundStmt" for c in d.get("inner", []))
+    prefetch([(ARR_TU, f) for f in ("base_array::data", "base_array::size", "base_array::operator=", "base_array::operator/", "base_array::operator|",
+                                    "base_array::base_array", "dsplib::array_cast", "base_array::begin", "base_array::end")] +
+             [("#include <dsplib/types.h>\n", "cmplx_t::cmplx_t"), ("#include <dsplib/types.h>\n", "cmplx_t::im"), ('#include "math.cpp"\n', "dsplib::dot"),
+              ("#include <dsplib/utils.h>\n", "dsplib::zeros")])
+    out = [HEADER % "include/dsplib/array.h (base_array<T>: `base_array(int)`, copy / move construction, `size`, `data`, `begin`, `end`, `operator=`, "
+                    "`operator/(scalar)`, `operator|` — PINNED), include/dsplib/types.h (`cmplx_t(const T&)` — PINNED), lib/math.cpp (`dot`, translated)",
+           "import DspVerif.Gen.StepsBase\n" + STEPS_HEAD[0], STEPS_HEAD[1]]
+    meth = lambda nm: (lambda d: d.get("kind") == "CXXMethodDecl" and d.get("name") == nm and has_body(d))
+    pinned(ARR_TU, "base_array::data", meth("data"), "data", ARRAY_PINS, "base_array<T>::data()")
+    pinned(ARR_TU, "base_array::size", meth("size"), "size", ARRAY_PINS, "base_array<T>::size()")
+    pinned(ARR_TU, "base_array::begin", meth("begin"), "begin", ARRAY_PINS, "base_array<T>::begin()")
+    pinned(ARR_TU, "base_array::end", meth("end"), "end", ARRAY_PINS, "base_array<T>::end()")
+    pinned(ARR_TU, "base_array::operator=", meth("operator="), "operator=", ARRAY_PINS, "base_array<T>::operator= (copy, move)")
+    scalar_or_array_tmpl = lambda nm: (lambda d: d.get("kind") == "FunctionTemplateDecl" and d.get("name") == nm and
+                                       [canon_type(qt(p_)) for f in d["inner"] if f.get("kind") == "CXXMethodDecl" for p_ in params_of(f)][:1] == ["const base_array<T2> &"])
+    scalar_tmpl = lambda nm: (lambda d: d.get("kind") == "FunctionTemplateDecl" and d.get("name") == nm and
+                              [canon_type(qt(p_)) for f in d["inner"] if f.get("kind") == "CXXMethodDecl" for p_ in params_of(f)][:1] == ["const T2 &"])
+    pinned(ARR_TU, "base_array::operator/", scalar_tmpl("operator/"), "operator/(scalar)", ARRAY_PINS, "base_array<T>::operator/(const T2&)")
+    pinned(ARR_TU, "base_array::operator/", scalar_tmpl("operator/="), "operator/=(scalar)", ARRAY_PINS, "base_array<T>::operator/=(const T2&)")
+    pinned(ARR_TU, "dsplib::array_cast", lambda d: d.get("kind") == "FunctionTemplateDecl" and d.get("name") == "array_cast",
+           "array_cast", ARRAY_PINS, "array_cast<T_dst>(const base_array<T_src>&)")
+    pinned(ARR_TU, "base_array::base_array", lambda d: d.get("kind") == "CXXConstructorDecl" and has_body(d) and
+           [canon_type(qt(p_)) for p_ in params_of(d)] == ["int"], "base_array(int)", ARRAY_PINS, "base_array<T>::base_array(int)")
+    pinned("#include <dsplib/types.h>\n", "cmplx_t::cmplx_t", lambda d: d.get("kind") == "FunctionTemplateDecl" and
+           [canon_type(qt(p_)) for f in d["inner"] if f.get("kind") == "CXXConstructorDecl" for p_ in params_of(f)][:1] == ["const T &"],
+           "cmplx_t(const T&)", ARRAY_PINS, "cmplx_t::cmplx_t(const T&) (scalar -> cmplx_t)")
+    pinned("#include <dsplib/types.h>\n", "cmplx_t::im", lambda d: d.get("kind") == "FieldDecl" and d.get("name") == "im",
+           "cmplx_t::im", ARRAY_PINS, "`real_t im{0};` of cmplx_t")
+    out.append(
+        "/-- `base_array<T>::size()`: `int(_vec.size())` (PINNED) -/\n"
+        "def arrSize {β : Type} (a : Array β) : Int := Int.ofNat a.size\n")
+    out.append(
+        "/-- `explicit base_array(int n) : _vec(n, 0)` (PINNED): `n` elements `T(0)`.  (A negative `n` converts to a huge `size_t`:\n"
+        "`std::vector` throws; here the empty array.) -/\n"
+        "def arrNew {β : Type} (zero : β) (n : Int) : Array β := Array.replicate n.toNat zero\n")
+    out.append(
+        "/-- `std::memmove(a.data() + dst, a.data() + src, cnt * sizeof(T))` inside ONE array (`data()` = `_vec.data()`, PINNED):\n"
+        "cell `i` with `dst ≤ i < dst + cnt` receives the OLD cell `i - dst + src` (memmove copies as if through a temporary),\n"
+        "every other cell is unchanged.  C++ is undefined when one of the two ranges leaves the array or `cnt < 0` (the byte count\n"
+        "wraps to a huge `size_t`); here a negative count moves nothing and a source cell outside the array leaves the target unchanged. -/\n"
+        "def arrMove {β : Type} (a : Array β) (dst src cnt : Int) : Array β :=\n"
+        "  Array.ofFn (n := a.size) fun i =>\n"
+        "    if dst ≤ Int.ofNat i.val ∧ Int.ofNat i.val < dst + cnt then a.getD (Int.ofNat i.val - dst + src).toNat a[i] else a[i]\n")
+    out.append(
+        "/-- `std::memcpy(dst.data() + d, src.data() + s, cnt * sizeof(T))` between two DIFFERENT arrays: cell `i` of `dst` with\n"
+        "`d ≤ i < d + cnt` receives cell `i - d + s` of `src`, every other cell is unchanged.  C++ is undefined when a range leaves its\n"
+        "array or `cnt < 0`; here a negative count copies nothing and a source cell outside `src` leaves the target unchanged. -/\n"
+        "def arrCopy {β : Type} (dst : Array β) (d : Int) (src : Array β) (s cnt : Int) : Array β :=\n"
+        "  Array.ofFn (n := dst.size) fun i =>\n"
+        "    if d ≤ Int.ofNat i.val ∧ Int.ofNat i.val < d + cnt then src.getD (Int.ofNat i.val - d + s).toNat dst[i] else dst[i]\n")
+    out.append(
+        "/-- `std::fill(a.begin(), a.end(), v)` (`begin()` / `end()` = those of `_vec`, PINNED): every cell becomes `v`, the size is kept -/\n"
+        "def arrFill {β : Type} (a : Array β) (v : β) : Array β := Array.replicate a.size v\n")
+    out.append(
+        "/-- `arr_real / real_t`: `base_array<T>::operator/(const T2&)` = `array_cast` copy, then `operator/=`: `_vec[i] /= rhs` for every `i`\n"
+        "(all three PINNED) -/\n"
+        "def arrDivRR (a : Array α) (d : α) : Array α := a.map fun v => v / d\n")
+    out.append(
+        "/-- `arr_cmplx / cmplx_t`: as `arrDivRR`; `_vec[i] /= rhs` is `cmplx_t::operator/=(const cmplx_t&)` (regenerated: `Cx.divAssign`) -/\n"
+        "def arrDivCC (a : Array (Cx α)) (d : Cx α) : Array (Cx α) := a.map fun v => Cx.divAssign v d\n")
+    pinned(ARR_TU, "base_array::operator|", scalar_or_array_tmpl("operator|"), "operator|(array)", ARRAY_PINS, "base_array<T>::operator|(const base_array<T2>&)")
+    pinned(ARR_TU, "base_array::operator|", scalar_or_array_tmpl("operator|="), "operator|=(array)", ARRAY_PINS, "base_array<T>::operator|=(const base_array<T2>&)")
+    pinned(ARR_TU, "base_array::base_array", lambda d: d.get("kind") == "CXXConstructorDecl" and has_body(d) and
+           [canon_type(qt(p_)) for p_ in params_of(d)] in (["const base_array<T> &"], ["base_array<T> &&"]), "base_array(copy/move)", ARRAY_PINS,
+           "base_array<T>::base_array(const base_array<T>&) / (base_array<T>&&)")
+    pinned("#include <dsplib/utils.h>\n", "dsplib::zeros", lambda d: d.get("kind") == "FunctionDecl" and d.get("name") == "zeros" and has_body(d) and
+           canon_type(qt(d)) == "arr_real (int)", "zeros(int)", ARRAY_PINS, "zeros(int) of include/dsplib/utils.h")
+    out.append(
+        "/-- `a | b` (concatenation): `base_array<T>::operator|` = `array_cast` copy of `a`, then `operator|=`:\n"
+        "`_vec.insert(_vec.end(), rhs.begin(), rhs.end())` (PINNED) -/\n"
+        "def arrConcat {β : Type} (a b : Array β) : Array β := a ++ b\n")
+    out.append(
+        "/-- `x[i]` on a raw pointer `x` to the first element of the array `a` (no index resolution: a negative or too large `i` is\n"
+        "undefined in C++; here the value is then `dflt`) -/\n"
+        "def ptrGet {β : Type} (dflt : β) (a : Array β) (i : Int) : β := if 0 ≤ i then a.getD i.toNat dflt else dflt\n")
+    out.append(
+        "/-- `x[i] = v` on a raw pointer `x` to the first element of the array `a` (outside the array: undefined in C++; here no write) -/\n"
+        "def ptrSet {β : Type} (a : Array β) (i : Int) (v : β) : Array β := if 0 ≤ i then a.setIfInBounds i.toNat v else a\n")
+    # --- dot(const arr_real&, const arr_real&), dot(const arr_cmplx&, const arr_cmplx&)
+    docs = clang_ast('#include "math.cpp"\n', "dsplib::dot")
+    for arrs, lname, elt, arr_lt in ((ARRAY_REAL_T, "dotRR", "α", "Array α"), (ARRAY_CX_T, "dotCC", "Cx α", "Array (Cx α)")):
+        fs = [d for d in docs if d.get("kind") == "FunctionDecl" and d.get("name") == "dot" and len(params_of(d)) == 2 and
+              all(canon_type(strip_type(qt(p_))) in arrs and "const" in qt(p_) for p_ in params_of(d)) and has_body(d)]
+        if len(fs) != 1:
+            raise Unsupported("dot(const %s&, const %s&) not found" % (sorted(arrs)[0], sorted(arrs)[0]))
+        f = fs[0]
+        if lean_type_of(f["type"]["qualType"].split("(")[0]) != elt:
+            raise Unsupported("dot returns %s" % f["type"]["qualType"])
+        conds, rest = split_guards(list(body_of(f).get("inner", [])))
+        names = [p_["name"] for p_ in params_of(f)]
+
+        def mk():
+            tr = StepTr(members={}, single=True, user_calls=steps_user_calls(), effect=False)
+            tr.bound = set()
+            for nm in names:
+                tr.arrays[nm] = (tr.var(nm), arr_lt)
+                tr.bound.add(tr.var(nm))
+                tr.types[tr.var(nm)] = arr_lt
+            tr.name_hint = lname
+            return tr
+        tr = mk()
+        sig = " ".join("(%s : %s)" % (tr.var(nm), arr_lt) for nm in names)
+        if conds:
+            ctexts = [mk().e(c) for c in conds]
+            out.append("/-- `%s`: the call THROWS (DSPLIB_ASSERT / DSPLIB_THROW in front of the computation) exactly when this holds -/\n"
+                       "def %sThrows %s : Prop :=\n  %s\n" % (qt(f), lname, sig, " ∨ ".join(ctexts)))
+        body = tr.stmts(rest, FALLOFF)
+        if FALLOFF in body:
+            raise Unsupported("dot: control can reach the end without a return")
+        if tr.pre or tr.writes:
+            raise Unsupported("dot: unexpected effect")
+        out += tr.aux_defs
+        out.append("/-- `%s` of lib/math.cpp: the value returned when the call does not throw%s -/\n"
+                   "def %s %s : %s :=\n%s\n" % (qt(f), " (see `%sThrows`)" % lname if conds else "", lname, sig, elt, indent(body)))
+    out.append("end Gen\nend Dsp\n")
+    return "\n".join(out)
 
 
 # ------------------------------------------------------------------------------------------
@@ -2256,6 +3585,821 @@ def gen_steps_dyn():
 
 
 # ------------------------------------------------------------------------------------------
+# unit: StepsTuner  (sample loop of Tuner::process)
+
+
+def gen_steps_tuner():
+    tu = "#include <dsplib/tuner.h>\n"
+    prefetch([(tu, "Tuner"), ("#include <dsplib/types.h>\n", "dsplib::pi")])
+    out = [HEADER % "include/dsplib/tuner.h (loop body of `Tuner::process`), include/dsplib/types.h (`pi`)",
+           "import DspVerif.Gen.StepsBase\n" + STEPS_HEAD[0], STEPS_HEAD[1]]
+    rec = record(clang_ast(tu, "Tuner"), "Tuner")
+    # the sample counter must be 64 bit wide: with `int` it wraps after 2^31 samples (seeded change C14-D)
+    table = {"_fs": "int", "_freq": "real_t", "_periodic": "bool", "_phase": "long long"}
+    ms = [m for m in methods_named(rec, "process") if len(params_of(m)) == 1]
+    if len(ms) != 1 or canon_type(strip_type(qt(params_of(ms[0])[0]))) not in ARRAY_CX_T:
+        raise Unsupported("Tuner::process(const arr_cmplx&) not found")
+    texts, eps_used, unused = gen_processor("Tuner", rec, "tuner", table, [(ms[0], "", "Cx α", ["Cx α"])], ["r"], {})
+    out += texts
+    out.append("end Gen\nend Dsp\n")
+    return "\n".join(out)
+
+
+# ------------------------------------------------------------------------------------------
+# unit: StepsAdaptive  (sample loop of LmsFilter<T>::process, T = real_t and cmplx_t)
+
+LMS_TU = ("#include <dsplib/lms.h>\ntemplate class dsplib::LmsFilter<dsplib::real_t>;\n"
+          "template class dsplib::LmsFilter<dsplib::cmplx_t>;\n")
+
+# digests (ast_digest) of the statements of LmsFilter<T>::process OUTSIDE the sample loop, in order:
+#   if (x.size() != d.size()) DSPLIB_THROW(...); int nx = x.size(); base_array<T> y(nx); base_array<T> e(nx);
+#   base_array<T> tu = _u | x; arr_real tu2 = (_method == LmsType::NLMS) ? abs2(tu) : arr_real{};
+#   _u = tu.slice(nx, nx + _len - 1);   [loop]   return {y, e};
+# They are not translated (array concatenation / slicing / element-wise abs2 are modelled by hand in Model/Adaptive.lean
+# and tied by the correspondence run); any change of them is an alarm.
+LMS_PINS = {
+    "double": ['baf4ee6a526324e2', '964e01685aa94f01', '277c1ce5296e41c4', '834479466c9a344b', '7d6ac3987c611cfc',
+               'eda88ff4431490e8', 'a2dfcf504233af64', '3231d15f952a087c'],
+    "cmplx_t": ['ee21b281e5836f80', '2a43f828d72d61a3', 'cf513eeeb74429ba', 'a951799ab7db94b3', '24c752d72ba1ad8d',
+                '1ede173890d598c8', 'd4740aceb4142430', 'cc345f73ab54439e'],
+}
+
+
+def indexed_loop(fn, size_of, pins, what):
+    """`fn` body = pinned statements + ONE loop `for (int k = 0; k < nx; k++)` with `int nx = <size_of>.size()`.
+    Returns (loop variable, body, digests)."""
+    stmts = [c for c in body_of(fn).get("inner", [])]
+    fors = [c for c in stmts if c.get("kind") == "ForStmt"]
+    if len(fors) != 1:
+        raise Unsupported("%s: expected exactly one sample loop at top level, found %d" % (what, len(fors)))
+    f = fors[0]
+    digs = [ast_digest(c) for c in stmts if c is not f]
+    if pins is not None and digs != pins:
+        raise Unsupported("%s: the statements outside the sample loop differ from the pinned form (digests %s)" % (what, digs))
+    sizes = set()
+    for c in stmts:
+        if c.get("kind") == "DeclStmt":
+            for d in c["inner"]:
+                if d.get("kind") == "VarDecl" and kind_of_type(qt(d)) == "int" and d.get("inner"):
+                    i0 = unwrap(d["inner"][0])
+                    if i0.get("kind") == "CXXMemberCallExpr" and unwrap(i0["inner"][0]).get("name") == "size" and \
+                            unwrap(unwrap(i0["inner"][0])["inner"][0]).get("kind") == "DeclRefExpr" and \
+                            unwrap(unwrap(i0["inner"][0])["inner"][0])["referencedDecl"].get("name") == size_of:
+                        sizes.add(d["name"])
+    init, condvar, cond, inc, body = f["inner"]
+    if condvar and condvar.get("kind"):
+        raise Unsupported("loop condition variable")
+    if not (init.get("kind") == "DeclStmt" and len(init["inner"]) == 1 and canon_type(qt(init["inner"][0])) == "int"
+            and init["inner"][0].get("inner") and unwrap(init["inner"][0]["inner"][0]).get("kind") == "IntegerLiteral"
+            and unwrap(init["inner"][0]["inner"][0])["value"] == "0"):
+        raise Unsupported("%s: sample loop does not start with `int k = 0`" % what)
+    var = init["inner"][0]["name"]
+    isvar = lambda n: unwrap(n).get("kind") == "DeclRefExpr" and unwrap(n)["referencedDecl"].get("name") == var
+    hi = unwrap(cond["inner"][1]) if cond.get("kind") == "BinaryOperator" else {}
+    if not (cond.get("kind") == "BinaryOperator" and cond["opcode"] == "<" and isvar(cond["inner"][0]) and
+            hi.get("kind") == "DeclRefExpr" and hi["referencedDecl"].get("name") in sizes):
+        raise Unsupported("%s: sample loop condition is not `%s < %s.size()`" % (what, var, size_of))
+    if not (inc.get("kind") == "UnaryOperator" and inc["opcode"] == "++" and isvar(inc["inner"][0])):
+        raise Unsupported("%s: sample loop increment is not `++%s`" % (what, var))
+    # the size local must not be assigned anywhere (it is not const in lms.h)
+    for asg in find_all(body_of(fn), lambda x: x.get("kind") in ("BinaryOperator", "CompoundAssignOperator", "UnaryOperator") and
+                        (x.get("opcode") in ("=", "++", "--") or x.get("kind") == "CompoundAssignOperator")):
+        t = unwrap(asg["inner"][0])
+        if t.get("kind") == "DeclRefExpr" and t["referencedDecl"].get("name") in sizes:
+            raise Unsupported("%s: the size local %s is modified" % (what, t["referencedDecl"]["name"]))
+    return var, body, digs
+
+
+def gen_steps_adaptive(report_pins=None):
+    prefetch([(LMS_TU, "LmsFilter"), (LMS_TU, "LmsType")])
+    out = [HEADER % ("include/dsplib/lms.h (loop body of `LmsFilter<T>::process`, T = real_t and cmplx_t; `enum class LmsType`), "
+                     "include/dsplib/rls.h (loop body of `RlsFilter<T>::process`, T = real_t and cmplx_t)"),
+           "import DspVerif.Gen.StepsArray\n" + STEPS_HEAD[0], STEPS_HEAD[1]]
+    vals = load_enum(LMS_TU, "LmsType")
+    out.append("/-! `enum class LmsType` (members of that type are `Int`s holding the enumerator value) -/\n" +
+               "\n".join("def LmsType_%s : Int := %d" % (k, v) for k, v in vals.items()) + "\n")
+    docs = clang_ast(LMS_TU, "LmsFilter")
+    specs = {}
+    for d in docs:
+        if d.get("kind") == "ClassTemplateSpecializationDecl" and d.get("name") == "LmsFilter" and \
+                any(x.get("kind") == "FieldDecl" for x in d.get("inner", [])):
+            ta = [canon_type(qt(a)) for a in d.get("inner", []) if a.get("kind") == "TemplateArgument"]
+            if len(ta) == 1:
+                specs[ta[0]] = d
+    if sorted(specs) != ["cmplx_t", "double"]:
+        raise Unsupported("LmsFilter instantiations found: %s" % sorted(specs))
+    for targ, suffix, elt, arr in (("double", "R", "α", "Array α"), ("cmplx_t", "C", "Cx α", "Array (Cx α)")):
+        rec = specs[targ]
+        cxx = "LmsFilter<%s>" % ("real_t" if targ == "double" else "cmplx_t")
+        table = {"_u": "base_array<%s>" % targ, "_w": "base_array<%s>" % targ, "_mu": "real_t", "_len": "int",
+                 "_locked": "bool", "_method": "LmsType", "_lk": "real_t"}
+        ms = [m for m in methods_named(rec, "process") if len(params_of(m)) == 2]
+        if len(ms) != 1:
+            raise Unsupported("%s::process(x, d) not found" % cxx)
+        fn = ms[0]
+        ps = params_of(fn)
+        for p_ in ps:
+            if canon_type(strip_type(qt(p_))) != "base_array<%s>" % targ:
+                raise Unsupported("%s::process parameter %s : %s" % (cxx, p_["name"], qt(p_)))
+        var, body, digs = indexed_loop(fn, ps[0]["name"], LMS_PINS[targ], cxx + "::process")
+        if report_pins is not None:
+            report_pins[targ] = digs
+        # arrays the loop body may read: the second parameter and the two working buffers declared before the loop
+        arrays = {ps[1]["name"]: (ps[1]["name"], arr)}
+        for c in body_of(fn)["inner"]:
+            if c.get("kind") == "DeclStmt":
+                for d in c["inner"]:
+                    t = canon_type(strip_type(qt(d)))
+                    if d.get("kind") == "VarDecl" and d["name"] in ("tu", "tu2"):
+                        lt = "Array α" if t in ARRAY_REAL_T else ("Array (Cx α)" if t in ARRAY_CX_T else None)
+                        if lt is None:
+                            raise Unsupported("%s: working buffer %s : %s" % (cxx, d["name"], qt(d)))
+                        arrays[d["name"]] = (d["name"], lt)
+        if sorted(arrays) != sorted([ps[1]["name"], "tu", "tu2"]):
+            raise Unsupported("%s: working buffers tu / tu2 not found" % cxx)
+        for o in ("y", "e"):
+            ok = False
+            for c in body_of(fn)["inner"]:
+                if c.get("kind") == "DeclStmt":
+                    for d in c["inner"]:
+                        if d.get("kind") == "VarDecl" and d["name"] == o and canon_type(strip_type(qt(d))) == "base_array<%s>" % targ:
+                            ce = unwrap(d["inner"][0]) if d.get("inner") else {}
+                            ok = ce.get("kind") == "CXXConstructExpr" and len(ce.get("inner", [])) == 1 and \
+                                kind_of_type(qt(ce["inner"][0])) == "int"
+            if not ok:
+                raise Unsupported("%s: output array %s is not declared as a zero-filled `base_array<T> %s(nx)`" % (cxx, o, o))
+        texts, eps_used, unused = gen_processor(
+            "LmsFilter" + suffix, rec, "lms" + suffix, table,
+            [(fn, "", elt, [elt, elt], {"indexed": True, "var": var, "body": body, "arrays": arrays,
+                                        "doc": "`tu` = `_u | x`, `tu2` = `abs2(tu)` for NLMS (else empty), `%s` = the desired signal" % ps[1]["name"],
+                                        "pin_doc": "The statements of `process` outside this loop are PINNED by an AST digest in tools/cxx2lean.py (not translated)."})],
+            ["y", "e"], {}, cxx_name=cxx)
+        out += texts
+    out += gen_rls(report_pins)
+    out.append("end Gen\nend Dsp\n")
+    return "\n".join(out)
+
+
+# --- RlsFilter<T>::process (include/dsplib/rls.h), T = real_t and cmplx_t
+
+RLS_TU = ("#include <dsplib.h>\ntemplate class dsplib::RlsFilter<dsplib::real_t>;\n"
+          "template class dsplib::RlsFilter<dsplib::cmplx_t>;\n")
+
+# digests of the statements of RlsFilter<T>::process OUTSIDE the sample loop, in order:
+#   if (x.size() != d.size()) DSPLIB_THROW(...); const int nx = x.size(); base_array<T> y(nx); base_array<T> e(nx);
+#   base_array<T> g(_n); base_array<T> Pu(_n); base_array<T> uTP(_n); base_array<T> guP(_n * _n);   [loop]   return {y, e};
+# The four working arrays are ALSO translated (they are loop-carried: fields of the generated State, initial values in `rls?Enter`);
+# the size guard, `nx`, the zero-filled outputs and the return are not (hand-modelled in Model/Adaptive.lean).
+RLS_PINS = {
+    "double": ['baf4ee6a526324e2', '583cdcfdcc98eba2', '9900f1ee21ce5712', '296065514838d6df', '9230ef305d3ac801', '974a2fe84decd76c',
+               '016bd8fe656e1f2c', '84e355da0ef72e0c', 'eb68dc9ce36337a4'],
+    "cmplx_t": ['ee21b281e5836f80', '631af0defa7a8a73', 'eabb1cf97c6b2fbb', '040ecb5b2f294ec0', '12fc265ed8674f3a', '373e60f14ed8c7b1',
+                '51516d805bf6b860', '85ff1daae89b2c03', '8f0bdace89549f7e'],
+}
+
+
+def gen_rls(report_pins=None):
+    prefetch([(RLS_TU, "RlsFilter")])
+    out = []
+    docs = clang_ast(RLS_TU, "RlsFilter")
+    specs = {}
+    for d in docs:
+        if d.get("kind") == "ClassTemplateSpecializationDecl" and d.get("name") == "RlsFilter" and \
+                any(x.get("kind") == "FieldDecl" for x in d.get("inner", [])):
+            ta = [canon_type(qt(a)) for a in d.get("inner", []) if a.get("kind") == "TemplateArgument"]
+            if len(ta) == 1:
+                specs[ta[0]] = d
+    if sorted(specs) != ["cmplx_t", "double"]:
+        raise Unsupported("RlsFilter instantiations found: %s" % sorted(specs))
+    for targ, suffix, elt, arr in (("double", "R", "α", "Array α"), ("cmplx_t", "C", "Cx α", "Array (Cx α)")):
+        rec = specs[targ]
+        cxx = "RlsFilter<%s>" % ("real_t" if targ == "double" else "cmplx_t")
+        table = {"_n": "int", "_mu": "real_t", "_u": "base_array<%s>" % targ, "_w": "base_array<%s>" % targ,
+                 "_p": "base_array<%s>" % targ, "_locked": "bool"}
+        ms = [m for m in methods_named(rec, "process") if len(params_of(m)) == 2]
+        if len(ms) != 1:
+            raise Unsupported("%s::process(x, d) not found" % cxx)
+        fn = ms[0]
+        ps = params_of(fn)
+        for p_ in ps:
+            if canon_type(strip_type(qt(p_))) != "base_array<%s>" % targ or "const" not in qt(p_):
+                raise Unsupported("%s::process parameter %s : %s" % (cxx, p_["name"], qt(p_)))
+        var, body, digs = indexed_loop(fn, ps[0]["name"], None if os.environ.get("VERIF_REPORT_PINS") == "collect" else RLS_PINS[targ],
+                                       cxx + "::process")
+        _report_pins("RLS_PINS[%s]" % targ, digs)
+        arrays = {p_["name"]: (p_["name"], arr) for p_ in ps}
+        # declarations in front of the loop: the outputs y, e (zero-filled, length nx) and the loop-carried working arrays
+        scratch = {}
+        seen_out = set()
+        seen_for = False
+        for c in body_of(fn)["inner"]:
+            if c.get("kind") == "ForStmt":
+                seen_for = True
+            if c.get("kind") != "DeclStmt":
+                continue
+            for d in c["inner"]:
+                if d.get("kind") != "VarDecl" or canon_type(strip_type(qt(d))) != "base_array<%s>" % targ:
+                    continue
+                if seen_for:
+                    raise Unsupported("%s: array %s declared behind the sample loop" % (cxx, d["name"]))
+                ce = unwrap(d["inner"][0]) if d.get("inner") else {}
+                if not (ce.get("kind") == "CXXConstructExpr" and len(ce.get("inner", [])) == 1 and
+                        kind_of_type(qt(ce["inner"][0])) == "int" and canon_type(ce.get("ctorType", {}).get("qualType", "")) == "void (int)"):
+                    raise Unsupported("%s: array %s is not declared as a zero-filled `base_array<T> %s(n)`" % (cxx, d["name"], d["name"]))
+                if d["name"] in ("y", "e"):
+                    a0 = unwrap(ce["inner"][0])
+                    if not (a0.get("kind") == "DeclRefExpr" and a0["referencedDecl"].get("name") == "nx"):
+                        raise Unsupported("%s: output array %s does not have length nx" % (cxx, d["name"]))
+                    seen_out.add(d["name"])
+                else:
+                    scratch[d["name"]] = {"cxx": "base_array<%s>" % targ, "id": d["id"], "init": ce["inner"][0], "fn": cxx + "::process",
+                                          "src": "n" if unwrap(ce["inner"][0]).get("kind") == "MemberExpr" else "n * n"}
+        if seen_out != {"y", "e"}:
+            raise Unsupported("%s: output arrays y, e not found" % cxx)
+        texts, eps_used, unused = gen_processor(
+            "RlsFilter" + suffix, rec, "rls" + suffix, table,
+            [(fn, "", elt, [elt, elt], {"indexed": True, "var": var, "body": body, "arrays": arrays,
+                                        "doc": "`%s` = the input, `%s` = the desired signal" % (ps[0]["name"], ps[1]["name"]),
+                                        "pin_doc": "The size guard, the zero-filled outputs and the `return` of `process` are PINNED by an AST digest in tools/cxx2lean.py (not translated)."})],
+            ["y", "e"], {}, cxx_name=cxx, scratch=scratch)
+        out += texts
+    return out
+
+
+# ------------------------------------------------------------------------------------------
+# unit: StepsSlice  (conversion of a stride-1 slice to an array: `A = B.slice(i1, i2);`)
+#
+# Whether the slice is accepted, and which elements it denotes, is decided by the REGENERATED constructor of unit Slice
+# (`Gen.BaseSlice.ctor`); the plumbing from `slice(i1, i2)` to that constructor and from the accepted slice to the new array
+# (copy of `nc` elements from `i1` on, stride 1) is PINNED here — its meaning is the subject of C04.
+
+SLICE_PINS = {
+    # slice_t<T> slice(int i1, int i2, int m = 1) { return slice_t<T>(*this, i1, i2, m); }   + const overload; the two `indexing::end_t` overloads
+    "base_array::slice": ['a35366fb121e5591', '3e54228fe565062d', '43d7b900d5ab7d2c', 'df9aa71886cf3736'],
+    # base_array(const const_slice_t<T>& rhs) : base_array(rhs.size()) { if (rhs.size() == 0) return; this->slice(0, indexing::end) = rhs; }
+    # base_array(const slice_t<T>& rhs) : base_array(const_slice_t<T>(rhs)) {}
+    "base_array(slice)": ['22becc53bf68be4d', '9d637827e7ddb610'],
+    # const_slice_t(const base_array<T>& arr, int i1, int i2, int m) : base_slice_t(arr.size(), i1, i2, m), _base{arr} {}  (+ the two copy forms; slice_t likewise)
+    "slice ctors": ['a778a1ab1a9d1878', '04b30e1af0fbc3d4', '044ec6f31bf6d734', 'b5e3e7a0f1e0cd5b', 'f25ac8e835073d72'],
+    # int size() const noexcept { return _nc; }   (const_slice_t, slice_t)
+    "slice size": ['acf8a5c488902ce6', '5de055f7ffe3c498'],
+    # slice_t& operator=(const const_slice_t<T>& rhs): size check, empty -> return, stride 1/1 -> memcpy / memmove of `count` elements from &*rhs.begin()
+    "slice_t::operator=": ['938cf4e32a1395d6'],
+    # begin(): iterator(_base.data() + _i1, _m)   (const_slice_t: 1, slice_t: 2)
+    "slice begin": ['ec31efb5cac1e1c7', '07be1c422644cb85', '91f40660245c71c7'],
+}
+
+
+def gen_steps_slice():
+    tu = "#include <dsplib/array.h>\n#include <dsplib/slice.h>\n"
+    has_body = lambda d: any(c.get("kind") == "CompoundStmt" for c in d.get("inner", []))
+    prefetch([(tu, f) for f in ("base_array::slice", "base_array::base_array", "slice_t::slice_t", "const_slice_t::const_slice_t",
+                                "slice_t::size", "slice_t::operator=", "slice_t::begin")])
+    out = [HEADER % "include/dsplib/array.h (`slice(int, int, int)`, `base_array(const slice_t&)` — PINNED), include/dsplib/slice.h "
+                    "(slice constructors, `size`, `begin`, `slice_t::operator=(const const_slice_t&)` — PINNED; the acceptance test is the regenerated `Gen.BaseSlice.ctor`)",
+           "import DspVerif.Gen.Slice\nimport DspVerif.Gen.StepsArray\n" + STEPS_HEAD[0], STEPS_HEAD[1]]
+    pinned(tu, "base_array::slice", lambda d: d.get("kind") == "CXXMethodDecl" and d.get("name") == "slice" and has_body(d),
+           "base_array::slice", SLICE_PINS, "base_array<T>::slice")
+    pinned(tu, "base_array::base_array", lambda d: d.get("kind") == "CXXConstructorDecl" and has_body(d) and
+           [canon_type(qt(p_)) for p_ in params_of(d)] in (["const const_slice_t<T> &"], ["const slice_t<T> &"]),
+           "base_array(slice)", SLICE_PINS, "base_array<T>::base_array(const (const_)slice_t<T>&)")
+    ctors = lambda d: d.get("kind") == "CXXConstructorDecl" and has_body(d)
+    ds = [d for f in ("const_slice_t::const_slice_t", "slice_t::slice_t") for d in clang_ast(tu, f) if ctors(d)]
+    got = [ast_digest(d) for d in ds]
+    _report_pins("slice ctors", got)
+    if got != SLICE_PINS["slice ctors"] and os.environ.get("VERIF_REPORT_PINS") != "collect":
+        raise Unsupported("the constructors of const_slice_t / slice_t differ from the pinned form (digests now %s)" % got)
+    pinned(tu, "slice_t::size", lambda d: d.get("kind") == "CXXMethodDecl" and d.get("name") == "size" and has_body(d),
+           "slice size", SLICE_PINS, "const_slice_t<T>::size / slice_t<T>::size")
+    pinned(tu, "slice_t::operator=", lambda d: d.get("kind") == "CXXMethodDecl" and d.get("name") == "operator=" and has_body(d) and
+           [canon_type(qt(p_)) for p_ in params_of(d)] == ["const const_slice_t<T> &"], "slice_t::operator=", SLICE_PINS,
+           "slice_t<T>::operator=(const const_slice_t<T>&)")
+    pinned(tu, "slice_t::begin", lambda d: d.get("kind") == "CXXMethodDecl" and d.get("name") == "begin" and has_body(d),
+           "slice begin", SLICE_PINS, "const_slice_t<T>::begin / slice_t<T>::begin")
+    out.append(
+        "/-- `base_array<T>(a.slice(i1, i2))` with the default stride 1: the slice constructor (REGENERATED: `BaseSlice.ctor`, called with\n"
+        "`n = a.size()`) throws or accepts; an accepted slice is copied into a new array: its `nc` elements from `i1` (resolved) on -/\n"
+        "def arrSlice {β : Type} (a : Array β) (i1 i2 : Int) : Except String (Array β) :=\n"
+        "  match BaseSlice.ctor (arrSize a) i1 i2 (1 : Int) with\n"
+        "  | .error e => .error e\n"
+        "  | .ok sl => .ok (a.extract sl.i1.toNat (sl.i1 + sl.nc).toNat)\n")
+    out.append(
+        "/-- `D.slice(d1, d2) = S.slice(s1, s2);` (default strides; `D`, `S` different arrays): the source slice is constructed first\n"
+        "(C++17 sequencing of `=`), then the destination slice — both by the REGENERATED `BaseSlice.ctor`, either may throw —, then\n"
+        "`slice_t::operator=(const const_slice_t&)` (PINNED): throws when the element counts differ, else copies `count` elements,\n"
+        "`D[d1 + j] = S[s1 + j]` -/\n"
+        "def arrSliceAssign {β : Type} (dst : Array β) (d1 d2 : Int) (src : Array β) (s1 s2 : Int) : Except String (Array β) :=\n"
+        "  match BaseSlice.ctor (arrSize src) s1 s2 (1 : Int) with\n"
+        "  | .error e => .error e\n"
+        "  | .ok ss =>\n"
+        "    match BaseSlice.ctor (arrSize dst) d1 d2 (1 : Int) with\n"
+        "    | .error e => .error e\n"
+        "    | .ok ds =>\n"
+        "      if ds.nc ≠ ss.nc then .error \"Slices size must be equal\"\n"
+        "      else .ok (Array.ofFn (n := dst.size) fun i =>\n"
+        "        if ds.i1 ≤ Int.ofNat i.val ∧ Int.ofNat i.val < ds.i1 + ds.nc then src.getD (Int.ofNat i.val - ds.i1 + ss.i1).toNat dst[i] else dst[i])\n")
+    out.append("end Gen\nend Dsp\n")
+    return "\n".join(out)
+
+
+# ------------------------------------------------------------------------------------------
+# unit: StepsFir  (lib/fir.cpp `_conv<T>`, `FirFilter<T>::conv`; include/dsplib/fir.h `FirFilter<T>::process`; T = real_t, cmplx_t)
+
+FIR_TU = ('#include "fir.cpp"\ntemplate class dsplib::FirFilter<dsplib::real_t>;\n'
+          'template class dsplib::FirFilter<dsplib::cmplx_t>;\n')
+
+
+def gen_steps_fir():
+    prefetch([(FIR_TU, "FirFilter"), (FIR_TU, "dsplib::_conv")])
+    has_body = lambda d: any(c.get("kind") == "CompoundStmt" for c in d.get("inner", []))
+    out = [HEADER % "lib/fir.cpp (`_conv<T>`, `FirFilter<T>::conv`), include/dsplib/fir.h (`FirFilter<T>::process`), T = real_t and cmplx_t",
+           "import DspVerif.Gen.StepsSlice\n" + STEPS_HEAD[0], STEPS_HEAD[1]]
+    # --- template<class T> static void _conv(const T* x, const T* h, T* r, int nh, int nx): the two instantiations
+    tmpl = [d for d in clang_ast(FIR_TU, "dsplib::_conv") if d.get("kind") == "FunctionTemplateDecl" and d.get("name") == "_conv"]
+    if len(tmpl) != 1:
+        raise Unsupported("function template _conv (lib/fir.cpp) not found")
+    inst = {}
+    for f in [c for c in tmpl[0]["inner"] if c.get("kind") == "FunctionDecl"]:
+        ta = [canon_type(qt(a)) for a in f.get("inner", []) if a.get("kind") == "TemplateArgument"]
+        if ta in (["double"], ["cmplx_t"]) and has_body(f):
+            inst[ta[0]] = f
+    if sorted(inst) != ["cmplx_t", "double"]:
+        raise Unsupported("_conv: instantiations found %s, expected real_t and cmplx_t" % sorted(inst))
+    docs = clang_ast(FIR_TU, "FirFilter")
+    specs = {}
+    for d in docs:
+        if d.get("kind") == "ClassTemplateSpecializationDecl" and d.get("name") == "FirFilter" and \
+                any(x.get("kind") == "FieldDecl" for x in d.get("inner", [])):
+            ta = [canon_type(qt(a)) for a in d.get("inner", []) if a.get("kind") == "TemplateArgument"]
+            if len(ta) == 1:
+                specs[ta[0]] = d
+    if sorted(specs) != ["cmplx_t", "double"]:
+        raise Unsupported("FirFilter instantiations found: %s" % sorted(specs))
+    for targ, suffix, elt, arr, arrname in (("double", "R", "α", "Array α", "arr_real"), ("cmplx_t", "C", "Cx α", "Array (Cx α)", "arr_cmplx")):
+        cxx = "FirFilter<%s>" % ("real_t" if targ == "double" else "cmplx_t")
+        f = inst[targ]
+        sig = canon_type(qt(f))
+        want = "void (const %s *__restrict, const %s *__restrict, %s *__restrict, int, int)" % (targ, targ, targ)
+        if sig != want:
+            raise Unsupported("_conv<%s> has signature %s" % (targ, sig))
+        texts, pinfo = gen_proc(f, "fir%sConvKernel" % suffix, "`_conv<%s>(const T* x, const T* h, T* r, int nh, int nx)` of lib/fir.cpp" %
+                                ("real_t" if targ == "double" else "cmplx_t"))
+        out += texts
+        # --- FirFilter<T>::conv(x, h) (explicit specialisation in lib/fir.cpp)
+        cs = [d for d in docs if d.get("kind") == "CXXMethodDecl" and d.get("name") == "conv" and has_body(d) and len(params_of(d)) == 2 and
+              all(canon_type(strip_type(qt(p_))) == arrname and "const" in qt(p_) and "&" in qt(p_) for p_ in params_of(d))]
+        if len(cs) != 1:
+            raise Unsupported("%s::conv(const %s&, const %s&) not found" % (cxx, arrname, arrname))
+        cf = cs[0]
+        if canon_type(cf["type"]["qualType"].split("(")[0]) != arrname:
+            raise Unsupported("%s::conv returns %s" % (cxx, cf["type"]["qualType"]))
+        tr = StepTr(members={}, single=True, user_calls=steps_user_calls(), effect=False)
+        tr.bound = set()
+        cargs = []
+        for p_ in params_of(cf):
+            v = tr.var(p_["name"])
+            tr.arrays[p_["name"]] = (v, arr)
+            tr.bound.add(v)
+            tr.decl_order.append(v)
+            tr.types[v] = arr
+            cargs.append("(%s : %s)" % (v, arr))
+        tr.procs = {"_conv": {sig: pinfo}}
+        tr.name_hint = "fir%sConv" % suffix
+        body = tr.stmts([body_of(cf)], FALLOFF)
+        if FALLOFF in body or tr.pre or tr.writes or tr.uninit or tr.aux_defs:
+            raise Unsupported("%s::conv: unexpected shape" % cxx)
+        out.append("/-- `%s::conv(const %s& x, const %s& h)` of lib/fir.cpp -/\ndef fir%sConv %s : %s :=\n%s\n" % (
+            cxx, arrname, arrname, suffix, " ".join(cargs), arr, indent(body)))
+        # --- FirFilter<T>::process(const base_array<T>& s)
+        rec = specs[targ]
+        table = {"_h": "base_array<%s>" % targ, "_d": "base_array<%s>" % targ}
+        order = check_members(rec, table, cxx)
+        members = {m: (m.lstrip("_"), arr, "%s %s" % (table[m], m)) for m in order}
+        ms = [m for m in methods_named(rec, "process") if len(params_of(m)) == 1]
+        if len(ms) != 1 or canon_type(strip_type(qt(params_of(ms[0])[0]))) != "base_array<%s>" % targ:
+            raise Unsupported("%s::process(const base_array<T>&) not found" % cxx)
+        pf = ms[0]
+        forwards_to_array(rec, "operator()", "process")
+        calls = steps_user_calls()
+        conv_sig = "%s (const %s &, const %s &)" % (arrname, arrname, arrname)
+
+        def conv_call(a, n, conv_sig=conv_sig, suffix=suffix):
+            rd = unwrap(n["inner"][0]).get("referencedDecl", {})
+            if canon_type(qt(unwrap(n["inner"][0]))) != conv_sig or rd.get("kind") != "CXXMethodDecl" or len(a) != 2:
+                raise Unsupported("call of conv with signature %s" % canon_type(qt(unwrap(n["inner"][0]))))
+            return "(fir%sConv %s %s)" % (suffix, a[0], a[1])
+        calls["conv"] = conv_call
+        tr = StepTr(members=members, single=True, user_calls=calls, effect=True)
+        tr.fallible = True
+        pn = params_of(pf)[0]["name"]
+        pv = tr.var(pn)
+        tr.arrays[pn] = (pv, arr)
+        tr.bound.add(pv)
+        tr.decl_order.append(pv)
+        tr.types.update({pv: arr, "self": "FirFilter%sState α" % suffix})
+        tr.name_hint = "fir%sProcess" % suffix
+        body = tr.stmts([body_of(pf)], FALLOFF)
+        if FALLOFF in body or tr.aux_defs:
+            raise Unsupported("%s::process: control can reach the end without a return" % cxx)
+        out.append(struct_text("FirFilter%sState" % suffix, "data members of `%s` (include/dsplib/fir.h; C++ declarations CHECKED)" % cxx,
+                               [members[m] for m in order]))
+        out.append("/-- `%s::process(const base_array<T>& %s)` (also `operator()`, which forwards to it): `.error` = the exception thrown\n"
+                   "(by the slice that hands the history over), else the members afterwards and the returned array -/\n"
+                   "def fir%sProcess (self : FirFilter%sState α) (%s : %s) : Except String (FirFilter%sState α × %s) :=\n%s\n" % (
+                       cxx, pn, suffix, suffix, pv, arr, suffix, arr, indent(body)))
+    out.append("end Gen\nend Dsp\n")
+    return "\n".join(out)
+
+
+# ------------------------------------------------------------------------------------------
+# unit: StepsDelay  (include/dsplib/delay.h `Delay<T>::process`, T = real_t, cmplx_t; lib/hilbert.cpp `HilbertFilter::process`)
+
+DELAY_TU = ('#include "hilbert.cpp"\ntemplate class dsplib::Delay<dsplib::real_t>;\n'
+            'template class dsplib::Delay<dsplib::cmplx_t>;\n')
+
+
+def gen_steps_delay():
+    prefetch([(DELAY_TU, "Delay"), (DELAY_TU, "HilbertFilter"), (DELAY_TU, "HilbertFilter::process")])
+    has_body = lambda d: any(c.get("kind") == "CompoundStmt" for c in d.get("inner", []))
+    out = [HEADER % "include/dsplib/delay.h (`Delay<T>::process`, T = real_t and cmplx_t), lib/hilbert.cpp (`HilbertFilter::process`), "
+                    "include/dsplib/hilbert.h (members)",
+           "import DspVerif.Gen.StepsFir\n" + STEPS_HEAD[0], STEPS_HEAD[1]]
+    docs = clang_ast(DELAY_TU, "Delay")
+    specs = {}
+    for d in docs:
+        if d.get("kind") == "ClassTemplateSpecializationDecl" and d.get("name") == "Delay" and \
+                any(x.get("kind") == "FieldDecl" for x in d.get("inner", [])):
+            ta = [canon_type(qt(a)) for a in d.get("inner", []) if a.get("kind") == "TemplateArgument"]
+            if len(ta) == 1:
+                specs[ta[0]] = d
+    if sorted(specs) != ["cmplx_t", "double"]:
+        raise Unsupported("Delay instantiations found: %s" % sorted(specs))
+    for targ, suffix, arr in (("double", "R", "Array α"), ("cmplx_t", "C", "Array (Cx α)")):
+        cxx = "Delay<%s>" % ("real_t" if targ == "double" else "cmplx_t")
+        rec = specs[targ]
+        table = {"_buffer": "base_array<%s>" % targ}
+        order = check_members(rec, table, cxx)
+        members = {m: (m.lstrip("_"), arr, "%s %s" % (table[m], m)) for m in order}
+        ms = [m for m in methods_named(rec, "process") if len(params_of(m)) == 1]
+        if len(ms) != 1 or canon_type(strip_type(qt(params_of(ms[0])[0]))) != "base_array<%s>" % targ:
+            raise Unsupported("%s::process(const base_array<T>&) not found" % cxx)
+        pf = ms[0]
+        forwards_to_array(rec, "operator()", "process")
+        tr = StepTr(members=members, single=True, user_calls=steps_user_calls(), effect=True)
+        tr.fallible = True
+        pn = params_of(pf)[0]["name"]
+        pv = tr.var(pn)
+        tr.arrays[pn] = (pv, arr)
+        tr.bound.add(pv)
+        tr.decl_order.append(pv)
+        tr.types.update({pv: arr, "self": "Delay%sState α" % suffix})
+        tr.name_hint = "delay%sProcess" % suffix
+        body = tr.stmts([body_of(pf)], FALLOFF)
+        if FALLOFF in body or tr.aux_defs:
+            raise Unsupported("%s::process: control can reach the end without a return" % cxx)
+        out.append(struct_text("Delay%sState" % suffix, "data members of `%s` (include/dsplib/delay.h; C++ declarations CHECKED)" % cxx,
+                               [members[m] for m in order]))
+        out.append("/-- `%s::process(const base_array<T>& %s)` (also `operator()`, which forwards to it): `.error` = the exception thrown\n"
+                   "(by one of the slices), else the member afterwards and the returned array -/\n"
+                   "def delay%sProcess (self : Delay%sState α) (%s : %s) : Except String (Delay%sState α × %s) :=\n%s\n" % (
+                       cxx, pn, suffix, suffix, pv, arr, suffix, arr, indent(body)))
+    # --- HilbertFilter::process(const arr_real& s): `_d.process(s)` -> real parts, `_fir.process(s)` -> imaginary parts
+    rec = record(clang_ast(DELAY_TU, "HilbertFilter"), "HilbertFilter")
+    table = {"_fir": "FirFilter<real_t>", "_d": "DelayReal"}
+    order = check_members(rec, table, "HilbertFilter")
+    sub_t = {"_fir": "FirFilterRState α", "_d": "DelayRState α"}
+    members = {m: (m.lstrip("_"), sub_t[m], "%s %s" % (table[m], m)) for m in order}
+    ms = [d for d in clang_ast(DELAY_TU, "HilbertFilter::process") if d.get("kind") == "CXXMethodDecl" and d.get("name") == "process" and has_body(d)]
+    if len(ms) != 1 or len(params_of(ms[0])) != 1 or canon_type(strip_type(qt(params_of(ms[0])[0]))) not in ARRAY_REAL_T:
+        raise Unsupported("HilbertFilter::process(const arr_real&) not found")
+    pf = ms[0]
+    forwards_to_array(rec, "operator()", "process")
+    subobjs = {"_d": {"ops": {"process": {"lean": "delayRProcess", "ret": "Array α"}}},
+               "_fir": {"ops": {"process": {"lean": "firRProcess", "ret": "Array α"}}}}
+    # the two calls must resolve to the functions generated above: Delay<real_t>::process / FirFilter<real_t>::process
+    for c in find_all(body_of(pf), lambda x: x.get("kind") == "CXXMemberCallExpr" and unwrap(x["inner"][0]).get("name") == "process"):
+        bt = canon_type(strip_type(qt(unwrap(unwrap(c["inner"][0])["inner"][0]))))
+        if bt not in ("DelayReal", "FirFilter<real_t>"):
+            raise Unsupported("HilbertFilter::process calls process on %s" % bt)
+    tr = StepTr(members=members, single=True, user_calls=steps_user_calls(), effect=True, subobjs=subobjs)
+    tr.fallible = True
+    pn = params_of(pf)[0]["name"]
+    pv = tr.var(pn)
+    tr.arrays[pn] = (pv, "Array α")
+    tr.bound.add(pv)
+    tr.decl_order.append(pv)
+    tr.types.update({pv: "Array α", "self": "HilbertFilterState α"})
+    tr.name_hint = "hilbertProcess"
+    body = tr.stmts([body_of(pf)], FALLOFF)
+    if FALLOFF in body:
+        raise Unsupported("HilbertFilter::process: control can reach the end without a return")
+    out.append(struct_text("HilbertFilterState", "data members of `HilbertFilter` (include/dsplib/hilbert.h; C++ declarations CHECKED): the two sub-objects",
+                           [members[m] for m in order]))
+    out += tr.aux_defs
+    out.append("/-- `HilbertFilter::process(const arr_real& %s)` (also `operator()`): `.error` = an exception thrown by `_d.process` / `_fir.process` -/\n"
+               "def hilbertProcess (self : HilbertFilterState α) (%s : Array α) : Except String (HilbertFilterState α × Array (Cx α)) :=\n%s\n" % (
+                   pn, pv, indent(body)))
+    out.append("end Gen\nend Dsp\n")
+    return "\n".join(out)
+
+
+# ------------------------------------------------------------------------------------------
+# unit: StepsResample  (lib/resample/fir-decimator.cpp, fir-interpolator.cpp, fir-rate-converter.cpp: the three `process` functions)
+
+RESAMPLE_TU = ('#include "resample/fir-decimator.cpp"\n#include "resample/fir-interpolator.cpp"\n'
+               '#include "resample/fir-rate-converter.cpp"\n')
+
+
+def gen_steps_resample():
+    classes = (
+        ("FIRDecimator", "firDecim", {"h_": "std::vector<arr_real>", "d_": "arr_real", "decim_": "int", "sublen_": "int"}),
+        ("FIRInterpolator", "firInterp", {"h_": "std::vector<arr_real>", "d_": "arr_real", "interp_": "int", "sublen_": "int"}),
+        ("FIRRateConverter", "firRate", {"h_": "std::vector<arr_real>", "d_": "arr_real", "interp_": "int", "decim_": "int",
+                                         "sublen_": "int", "xidxs_": "std::vector<int>"}),
+    )
+    prefetch([(RESAMPLE_TU, c[0]) for c in classes] + [(RESAMPLE_TU, c[0] + "::process") for c in classes])
+    has_body = lambda d: any(c.get("kind") == "CompoundStmt" for c in d.get("inner", []))
+    out = [HEADER % "lib/resample/fir-decimator.cpp, fir-interpolator.cpp, fir-rate-converter.cpp (`process` of FIRDecimator, FIRInterpolator, "
+                    "FIRRateConverter), include/dsplib/resample.h (members)",
+           "import DspVerif.Gen.StepsArray\n" + STEPS_HEAD[0], STEPS_HEAD[1]]
+    for cls, lean, table in classes:
+        rec = record(clang_ast(RESAMPLE_TU, cls), cls)
+        order = check_members(rec, table, cls)
+        members = {}
+        for m in order:
+            lt = lean_type_of(table[m])
+            if lt is None:
+                raise Unsupported("%s::%s: C++ type %s has no Lean counterpart" % (cls, m, table[m]))
+            members[m] = (m.lstrip("_").rstrip("_"), lt, "%s %s" % (table[m], m))
+        ms = [d for d in clang_ast(RESAMPLE_TU, cls + "::process") if d.get("kind") == "CXXMethodDecl" and d.get("name") == "process" and has_body(d)]
+        if len(ms) != 1 or len(params_of(ms[0])) != 1 or canon_type(strip_type(qt(params_of(ms[0])[0]))) not in ARRAY_REAL_T or \
+                canon_type(ms[0]["type"]["qualType"].split("(")[0]) not in ARRAY_REAL_T:
+            raise Unsupported("%s::process(const arr_real&) -> arr_real not found" % cls)
+        pf = ms[0]
+        tr = StepTr(members=members, single=True, user_calls=steps_user_calls(), effect=True)
+        tr.fallible = True
+        pn = params_of(pf)[0]["name"]
+        pv = tr.var(pn)
+        tr.arrays[pn] = (pv, "Array α")
+        tr.bound.add(pv)
+        tr.decl_order.append(pv)
+        S = "%sState" % cls
+        tr.types.update({pv: "Array α", "self": "%s α" % S})
+        tr.name_hint = lean + "Process"
+        body = tr.stmts([body_of(pf)], FALLOFF)
+        if FALLOFF in body:
+            raise Unsupported("%s::process: control can reach the end without a return" % cls)
+        if tr.writes - {"d_"}:
+            raise Unsupported("%s::process writes the members %s" % (cls, sorted(tr.writes)))
+        out.append(struct_text(S, "data members of `%s` (include/dsplib/resample.h; C++ declarations CHECKED); `process` writes `d_` only" % cls,
+                               [members[m] for m in order]))
+        out += tr.aux_defs
+        out.append("/-- `%s::process(const arr_real& %s)`: `.error` = the exception thrown (if the function has a throwing guard), else the\n"
+                   "members afterwards and the returned array -/\n"
+                   "def %sProcess (self : %s α) (%s : Array α) : Except String (%s α × Array α) :=\n%s\n" % (
+                       cls, pn, lean, S, pv, S, indent(body)))
+    out.append("end Gen\nend Dsp\n")
+    return "\n".join(out)
+
+
+# ------------------------------------------------------------------------------------------
+# unit: StepsSnr  (lib/snr.cpp: `_locate_peak`, `_left_descent`, `_right_descent`, the walk skeleton of `_get_psd_tone`)
+
+SNR_TU = '#include "snr.cpp"\n'
+
+# digests of the statements of `_get_psd_tone(const arr_real& spec, real_t tone_freq)` that are NOT translated, in order:
+#   const real_t fpos = std::round(tone_freq * n);  int freq_num = (fpos >= 0) ? ((fpos < n) ? int(fpos) : (n - 1)) : 0;
+#   freq_num = max(freq_num, 0);            [translated: n, ipeak, ltop + loop, rtop + loop, lpos, rpos]
+#   const arr_real f_fund = arange(lpos, rpos + 1) / n;  const arr_real s_fund = spec.slice(lpos, rpos + 1);
+#   const auto freq = dot(f_fund, s_fund) / sum(s_fund);  ToneInfo info;  info.size = n; … info.power = sum(s_fund);  return info;
+SNR_PINS = {"_get_psd_tone": ['4e04c82bd379b808', 'b213486239b8e565', '02e378013d71b8dc', '205ec58512803cd6', '529c5fd05bb7d22c',
+                              '61becf6a64af64a5', 'fbc1f1081e1fc371', '65d7d9234b8c3003', '885df3241fdc3e04', '8b1808728ad9e339',
+                              '68ff68e6b6d8108a', 'e2f9c48bfc7da6cc', '802236315e7b2378']}
+
+
+def gen_steps_snr():
+    prefetch([(SNR_TU, f) for f in ("_locate_peak", "_left_descent", "_right_descent", "_get_psd_tone")] +
+             [("#include <dsplib/math.h>\n", "dsplib::max"), ("#include <dsplib/math.h>\n", "dsplib::min")])
+    has_body = lambda d: any(c.get("kind") == "CompoundStmt" for c in d.get("inner", []))
+    out = [HEADER % "lib/snr.cpp (`_locate_peak`, `_left_descent`, `_right_descent`, the walks of `_get_psd_tone`), "
+                    "include/dsplib/math.h (`max` / `min` of two scalars at `int`)",
+           "import DspVerif.Gen.StepsArray\n" + STEPS_HEAD[0], STEPS_HEAD[1]]
+    # max / min of two ints: the same templates StepsBase translates at real_t
+    minmax_sig = "auto (const int &, const int &) -> decltype(v1 + v2)"
+    for name in ("max", "min"):
+        docs = clang_ast("#include <dsplib/math.h>\n", "dsplib::" + name)
+        ts = [d for d in docs if d.get("kind") == "FunctionTemplateDecl" and d.get("name") == name]
+        ts = [t for t in ts for f in [[c for c in t["inner"] if c.get("kind") == "FunctionDecl"][0]] if len(params_of(f)) == 2]
+        if len(ts) != 1:
+            raise Unsupported("template %s(const T1&, const T2&) not found" % name)
+        f = [c for c in ts[0]["inner"] if c.get("kind") == "FunctionDecl"][0]
+        if canon_type(qt(f)) != "auto (const T1 &, const T2 &) -> decltype(v1 + v2)":
+            raise Unsupported("template %s: signature %s" % (name, qt(f)))
+        body = Tr().stmts([body_of(f)], "?", False)
+        ps = [p_["name"] for p_ in params_of(f)]
+        out.append("/-- `dsplib::%s(const T1& v1, const T2& v2)` of include/dsplib/math.h at `T1 = T2 = int` -/\n"
+                   "def %sII (%s : Int) : Int :=\n%s\n" % (name, name, " ".join(ps), indent(body)))
+
+    def calls():
+        c = steps_user_calls()
+        csig = lambda n: canon_type(qt(unwrap(n["inner"][0])))
+
+        def mmi(name, real):
+            def h(a, n):
+                if csig(n) == minmax_sig and len(a) == 2:
+                    return "(%sII %s %s)" % (name, a[0], a[1])
+                return real(a, n)
+            return h
+        c["max"], c["min"] = mmi("max", c["max"]), mmi("min", c["min"])
+        for cn, ln in (("_locate_peak", "snrLocatePeak"), ("_left_descent", "snrLeftDescent"), ("_right_descent", "snrRightDescent")):
+            def h(a, n, cn=cn, ln=ln):
+                if csig(n) != "int (const arr_real &, int)" or len(a) != 2:
+                    raise Unsupported("call of %s with signature %s" % (cn, csig(n)))
+                return "(%s %s %s)" % (ln, a[0], a[1])
+            c[cn] = h
+        return c
+
+    def walk_fn(cname, lname):
+        fs = [d for d in clang_ast(SNR_TU, cname) if d.get("kind") == "FunctionDecl" and d.get("name") == cname and has_body(d)]
+        if len(fs) != 1 or canon_type(qt(fs[0])) != "int (const arr_real &, int)":
+            raise Unsupported("%s(const arr_real&, int) -> int not found" % cname)
+        f = fs[0]
+        tr = StepTr(members={}, single=True, user_calls=calls(), effect=False)
+        tr.bound = set()
+        ps = params_of(f)
+        av, iv = tr.var(ps[0]["name"]), tr.var(ps[1]["name"])
+        tr.arrays[ps[0]["name"]] = (av, "Array α")
+        for v, lt in ((av, "Array α"), (iv, "Int")):
+            tr.bound.add(v)
+            tr.decl_order.append(v)
+            tr.types[v] = lt
+        tr.name_hint = lname
+        body = tr.stmts([body_of(f)], FALLOFF)
+        if FALLOFF in body or tr.pre or tr.writes or tr.uninit:
+            raise Unsupported("%s: unexpected shape" % cname)
+        out.extend(tr.aux_defs)
+        out.append("/-- `int %s(const arr_real& %s, int %s)` of lib/snr.cpp -/\ndef %s (%s : Array α) (%s : Int) : Int :=\n%s\n" % (
+            cname, ps[0]["name"], ps[1]["name"], lname, av, iv, indent(body)))
+
+    walk_fn("_locate_peak", "snrLocatePeak")
+    walk_fn("_left_descent", "snrLeftDescent")
+    walk_fn("_right_descent", "snrRightDescent")
+    # --- _get_psd_tone(const arr_real& spec, real_t tone_freq): the statements from `ipeak` to `rpos` (and `n`)
+    fs = [d for d in clang_ast(SNR_TU, "_get_psd_tone") if d.get("kind") == "FunctionDecl" and d.get("name") == "_get_psd_tone" and has_body(d) and
+          canon_type(qt(d)).replace("(anonymous namespace)::", "") == "ToneInfo (const arr_real &, real_t)"]
+    if len(fs) != 1:
+        raise Unsupported("_get_psd_tone(const arr_real&, real_t) not found")
+    f = fs[0]
+    stmts = list(body_of(f).get("inner", []))
+    declares = lambda st, nm: st.get("kind") == "DeclStmt" and any(d.get("kind") == "VarDecl" and d.get("name") == nm for d in st["inner"])
+    idx = {nm: [i for i, st in enumerate(stmts) if declares(st, nm)] for nm in ("n", "freq_num", "ipeak", "rpos")}
+    if any(len(v) != 1 for v in idx.values()) or not (idx["n"][0] == 0 and idx["n"][0] < idx["freq_num"][0] < idx["ipeak"][0] < idx["rpos"][0]):
+        raise Unsupported("_get_psd_tone: the declarations of n, freq_num, ipeak, rpos are not found in that order")
+    a, b = idx["ipeak"][0], idx["rpos"][0]
+    part = [stmts[0]] + stmts[a:b + 1]
+    others = stmts[1:a] + stmts[b + 1:]
+    digs = [ast_digest(c) for c in others]
+    _report_pins("SNR_PINS[_get_psd_tone]", digs)
+    if digs != SNR_PINS["_get_psd_tone"] and os.environ.get("VERIF_REPORT_PINS") != "collect":
+        raise Unsupported("_get_psd_tone: the statements around the walks differ from the pinned form (digests %s)" % digs)
+    # freq_num must not be assigned after the statements skipped in front (it is the input of the translated part)
+    for st in stmts[a:]:
+        for asg in find_all(st, lambda x: x.get("kind") in ("BinaryOperator", "CompoundAssignOperator", "UnaryOperator") and
+                            (x.get("opcode") in ("=", "++", "--") or x.get("kind") == "CompoundAssignOperator")):
+            t = unwrap(asg["inner"][0])
+            if t.get("kind") == "DeclRefExpr" and t["referencedDecl"].get("name") in ("freq_num", "n"):
+                raise Unsupported("_get_psd_tone: %s is modified inside / behind the translated statements" % t["referencedDecl"]["name"])
+    tr = StepTr(members={}, single=True, user_calls=calls(), effect=False)
+    tr.bound = set()
+    ps = params_of(f)
+    av = tr.var(ps[0]["name"])
+    tr.arrays[ps[0]["name"]] = (av, "Array α")
+    for v, lt in ((av, "Array α"), ("freq_num", "Int")):
+        tr.bound.add(v)
+        tr.decl_order.append(v)
+        tr.types[v] = lt
+    tr.name_hint = "snrToneBounds"
+    body = tr.stmts(part, "(lpos, rpos)")
+    if tr.pre or tr.writes or tr.uninit:
+        raise Unsupported("_get_psd_tone: unexpected effect")
+    out.extend(tr.aux_defs)
+    out.append("/-- the walks of `ToneInfo _get_psd_tone(const arr_real& %s, real_t tone_freq)` of lib/snr.cpp: from the clamped bin number\n"
+               "`freq_num` (computed by the statements in front, PINNED) to the lobe limits `(lpos, rpos)` — peak, the plateau of bins equal\n"
+               "to the peak, the two descents.  The statements behind (`arange`, `slice`, `dot`, `sum`, `ToneInfo`) are PINNED. -/\n"
+               "def snrToneBounds (%s : Array α) (freq_num : Int) : Int × Int :=\n%s\n" % (ps[0]["name"], av, indent(body)))
+    out.append("end Gen\nend Dsp\n")
+    return "\n".join(out)
+
+
+# ------------------------------------------------------------------------------------------
+# unit: StepsMedian  (lib/medfilt.cpp: `_update_sort`, sample loop of MedianFilter::process)
+
+MED_TU = '#include "medfilt.cpp"\n'
+
+
+def gen_steps_median():
+    prefetch([(MED_TU, "dsplib::_update_sort"), (MED_TU, "MedianFilter"), (MED_TU, "MedianFilter::process")])
+    out = [HEADER % "lib/medfilt.cpp (`_update_sort`, loop body of `MedianFilter::process`), include/dsplib/medfilt.h (members)",
+           "import DspVerif.Gen.StepsArray\n" + STEPS_HEAD[0], STEPS_HEAD[1]]
+    # --- static void _update_sort(real_t* x, int nx, real_t v_new, real_t v_old): works in place on x[0 … nx-1]
+    fs = [d for d in clang_ast(MED_TU, "dsplib::_update_sort") if d.get("kind") == "FunctionDecl" and d.get("name") == "_update_sort" and
+          any(c.get("kind") == "CompoundStmt" for c in d.get("inner", []))]
+    if len(fs) != 1:
+        raise Unsupported("_update_sort not found")
+    sig = "void (real_t *, int, real_t, real_t)"
+    if canon_type(qt(fs[0])) != sig:
+        raise Unsupported("_update_sort has signature %s, expected %s" % (canon_type(qt(fs[0])), sig))
+    texts, pinfo = gen_proc(fs[0], "medianUpdateSort", "`static void _update_sort(real_t* x, int nx, real_t v_new, real_t v_old)` of lib/medfilt.cpp")
+    out += texts
+    # --- MedianFilter::process
+    rec = record(clang_ast(MED_TU, "MedianFilter"), "MedianFilter")
+    table = {"_d": "arr_real", "_s": "arr_real", "_i": "int", "_n": "const int"}
+    ms = [d for d in clang_ast(MED_TU, "MedianFilter::process") if d.get("kind") == "CXXMethodDecl" and d.get("name") == "process" and
+          any(c.get("kind") == "CompoundStmt" for c in d.get("inner", []))]
+    if len(ms) != 1 or len(params_of(ms[0])) != 1 or canon_type(strip_type(qt(params_of(ms[0])[0]))) not in ARRAY_REAL_T:
+        raise Unsupported("MedianFilter::process(const arr_real&) not found")
+    forwards_to_array(rec, "operator()", "process")
+    texts, eps_used, unused = gen_processor(
+        "MedianFilter", rec, "median", table, [(ms[0], "", "α", ["α"], {"out_decls": ("y",)})], ["y"], {},
+        procs={"_update_sort": {sig: pinfo}})
+    out += texts
+    out.append("end Gen\nend Dsp\n")
+    return "\n".join(out)
+
+
+def ptr_param(t):
+    """C++ type of a pointer parameter -> (lean array type, pointee is const) or None"""
+    t = canon_type(t).replace("__restrict", "").strip()
+    t = re.sub(r"\*\s*const$", "*", t).strip()                     # the pointer itself may be const
+    t = re.sub(r"^(double|real_t|cmplx_t) const \*$", r"const \1 *", t)   # east const
+    m = re.match(r"^(const )?(double|real_t|cmplx_t) \*$", t)
+    if not m:
+        return None
+    return ("Array (Cx α)" if m.group(2) == "cmplx_t" else "Array α"), bool(m.group(1))
+
+
+def gen_proc(f, lname, what):
+    """a free function `void f(T* a, const T* b, …, scalars…)` that works IN PLACE on the array whose first element its single
+    pointer-to-non-const parameter points to: translated as a function from the arrays and scalars to that array afterwards.
+    Returns (texts, dict(lean=…, kinds=[("ptr" | "cptr" | "val", lean type)…]))."""
+    if f["type"]["qualType"].split("(")[0].strip() != "void":
+        raise Unsupported("%s does not return void" % f.get("name"))
+    tr = StepTr(members={}, single=True, user_calls=steps_user_calls(), effect=False)
+    tr.bound = set()
+    kinds, args, out_arr = [], [], []
+    for p_ in params_of(f):
+        v = tr.var(p_["name"])
+        pp = ptr_param(qt(p_))
+        if pp is not None:
+            lt, is_const = pp
+            tr.ptr_arrays[p_["name"]] = (v, lt, is_const)
+            kinds.append(("cptr" if is_const else "ptr", lt))
+            if not is_const:
+                out_arr.append(v)
+        else:
+            lt = lean_type_of(qt(p_))
+            if lt not in ("α", "Int", "Cx α") or "*" in qt(p_) or "&" in qt(p_):
+                raise Unsupported("%s: parameter %s : %s" % (f.get("name"), p_["name"], qt(p_)))
+            kinds.append(("val", lt))
+        if v in tr.bound:
+            raise Unsupported("%s: duplicate parameter name %s" % (f.get("name"), v))
+        tr.bound.add(v)
+        tr.decl_order.append(v)
+        tr.types[v] = lt
+        args.append("(%s : %s)" % (v, lt))
+    if len(out_arr) != 1:
+        raise Unsupported("%s: expected exactly one pointer-to-non-const parameter, found %d" % (f.get("name"), len(out_arr)))
+    tr.name_hint = lname
+    body = tr.stmts([body_of(f)], out_arr[0])
+    if tr.pre or tr.writes or tr.uninit:
+        raise Unsupported("%s: unexpected effect / unassigned local" % f.get("name"))
+    rt = tr.types[out_arr[0]]
+    texts = list(tr.aux_defs)
+    texts.append("/-- %s: works in place on the array\nwhose first element `%s` points to; result = that array afterwards -/\n"
+                 "def %s %s : %s :=\n%s\n" % (what, out_arr[0], lname, " ".join(args), rt, indent(body)))
+    return texts, {"lean": lname, "kinds": kinds}
+
+
+def forwards_to_array(rec, name, target):
+    """`R name(const arr& x) { return this->target(x); }`"""
+    ms = [m for m in methods_named(rec, name) if len(params_of(m)) == 1]
+    if len(ms) != 1:
+        raise Unsupported("%s(x) not found" % name)
+    b = body_of(ms[0]).get("inner", [])
+    if len(b) != 1 or b[0].get("kind") != "ReturnStmt":
+        raise Unsupported("%s does not simply forward to %s" % (name, target))
+    calls = find_all(b[0], lambda x: x.get("kind") == "CXXMemberCallExpr")
+    if len(calls) != 1 or unwrap(calls[0]["inner"][0]).get("name") != target or \
+            unwrap(unwrap(calls[0]["inner"][0])["inner"][0]).get("kind") != "CXXThisExpr" or len(calls[0]["inner"]) != 2:
+        raise Unsupported("%s does not simply forward to %s" % (name, target))
+    a = unwrap(calls[0]["inner"][1])
+    if not (a.get("kind") == "DeclRefExpr" and a["referencedDecl"].get("name") == params_of(ms[0])[0]["name"]):
+        raise Unsupported("%s does not pass its argument to %s" % (name, target))
+    if find_all(b[0], lambda x: x.get("kind") in ("CallExpr", "CXXOperatorCallExpr", "BinaryOperator", "UnaryOperator")):
+        raise Unsupported("%s computes besides forwarding to %s" % (name, target))
+
+
+# ------------------------------------------------------------------------------------------
 UNITS = {}
 
 
@@ -2273,6 +4417,16 @@ unit("Dynamics", ["lib/math.cpp", "include/dsplib/math.h", "include/dsplib/audio
 unit("Awgn", ["lib/awgn.cpp"])(gen_awgn)
 unit("Consts", ["lib/primes.cpp", "lib/fft/primes-fft.h", "lib/fft/fft.cpp", "CMakeLists.txt"])(gen_consts)
 unit("StepsBase", ["include/dsplib/array.h", "lib/math.cpp", "include/dsplib/math.h"])(gen_steps_base)
+unit("StepsArray", ["include/dsplib/array.h", "include/dsplib/types.h", "lib/math.cpp"])(gen_steps_array)
+unit("StepsAdaptive", ["include/dsplib/lms.h", "include/dsplib/rls.h"])(gen_steps_adaptive)
+unit("StepsTuner", ["include/dsplib/tuner.h", "include/dsplib/types.h"])(gen_steps_tuner)
+unit("StepsMedian", ["lib/medfilt.cpp", "include/dsplib/medfilt.h"])(gen_steps_median)
+unit("StepsSlice", ["include/dsplib/array.h", "include/dsplib/slice.h"])(gen_steps_slice)
+unit("StepsFir", ["lib/fir.cpp", "include/dsplib/fir.h"])(gen_steps_fir)
+unit("StepsDelay", ["include/dsplib/delay.h", "lib/hilbert.cpp", "include/dsplib/hilbert.h"])(gen_steps_delay)
+unit("StepsSnr", ["lib/snr.cpp", "include/dsplib/math.h"])(gen_steps_snr)
+unit("StepsResample", ["lib/resample/fir-decimator.cpp", "lib/resample/fir-interpolator.cpp", "lib/resample/fir-rate-converter.cpp",
+                       "include/dsplib/resample.h"])(gen_steps_resample)
 unit("StepsDyn", ["include/dsplib/audio/compressor.h", "include/dsplib/audio/limiter.h", "include/dsplib/audio/noise-gate.h",
                   "lib/agc.cpp", "lib/ma-filter.h", "include/dsplib/agc.h"])(gen_steps_dyn)
 
